@@ -13,12 +13,23 @@ import (
 // R-emit-balance — abstract interpretation of the bytecode emitter over the
 // symbolic operand-stack height. See DESIGN.md §4 (R-emit-balance) and
 // Appendix B. The per-opcode stack effects are *extracted from the VM's
-// runInstruction* on every run (emVMEffects), so the emitter is checked
+// instruction dispatcher* on every run (emVMEffects), so the emitter is checked
 // against what the VM actually does.
+//
+// Structure of the emitter analysis:
+//   - roles of the emitter functions by parameter type and recursion structure (classify): the two
+//     dispatchers, functions compiling ONE node (used by convention, checked against it), frames,
+//     drivers, and helpers / pieces, which are analysed INLINE at their call sites (inlineCall):
+//     parameters are bound to the canonical text, the tracked value and the integer form of the
+//     arguments, so labels, lists, opcodes and node kinds known at the call site are known inside;
+//   - canonical texts (canon): aliases of node paths, loop indices, accessor methods;
+//   - a value domain for opcodes and the data they flow through (evalAlts, row groups);
+//   - forks (walkFn/fork): a helper that ends in several observable ways, an opcode chosen by data
+//     among instructions with different effects.
 
 func init() {
-	register(&Rule{ID: "R-emit-balance", Floor: 40, Run: ruleEmitBalance,
-		Doc: "operand-stack balance of the code the compiler emits, decided by abstract interpretation of the emitter functions over a symbolic stack height (per-opcode effects extracted from the VM's run loop): (a) at every emitted label all incoming heights — fall-through and every jump recorded for it — agree up to the value of a branch's own result (tail) expression; (b) every compileExpr case nets exactly one value when all its sub-expressions do (zero for the node kinds the analyzer types as null), every compileStmt case nets zero, every helper has one effect on all paths; (c) loops in the emitter have one per-iteration effect; (d) the argument count pushed before HostCall/Call_Val/Spawn equals the number of values pushed for it; (e) every label created in a case is emitted exactly once on every path that jumps to it"})
+	register(&Rule{ID: "R-emit-balance", Floor: 32, Run: ruleEmitBalance,
+		Doc: "operand-stack balance of the code the compiler emits, decided by abstract interpretation of the emitter functions over a symbolic stack height (per-opcode effects extracted from the VM's instruction dispatcher, specialised per opcode, through however many functions the dispatch is spread): (a) at every emitted label all incoming heights — fall-through and every jump recorded for it — agree up to the value of a branch's own result (tail) expression; (b) every case of the expression dispatcher nets exactly one value when all its sub-expressions do (zero for the node kinds the analyzer types as null), every case of the statement dispatcher nets zero, every function that compiles one node nets what its node type says; helpers and pieces of a construct (emit helpers, extracted loops, closures, deferred emissions) are analysed inline at their call sites with the actual arguments, a helper that can end in several ways splits the caller's path; the opcode of an instruction may flow through locals, helper results, tables written as data and parameters — where it is one of several, they must agree on the effect or the path is split per opcode; (c) loops in the emitter have one per-iteration effect; (d) the argument count pushed before HostCall/Call_Val/Spawn equals the number of values pushed for it; (e) every label created in a case is emitted exactly once on every path that jumps to it"})
 }
 
 // ---- linear heights ----
@@ -62,7 +73,7 @@ func (a lin) scale(n int) lin {
 	}
 	return r
 }
-func (a lin) isZero() bool { return a.c == 0 && len(a.s) == 0 }
+func (a lin) isZero() bool  { return a.c == 0 && len(a.s) == 0 }
 func (a lin) eq(b lin) bool { return a.sub(b).isZero() }
 func (a lin) String() string {
 	var keys []string
@@ -125,6 +136,7 @@ type vmEffect struct {
 	variants []string
 	pops     int // pop/push calls on the first normal path (for the symbolic stack of the emitter analysis)
 	pushes   int
+	unknown  string // the effect could not be extracted (why)
 }
 
 func emVMEffects(c *Ctx) map[string]vmEffect {
@@ -164,16 +176,13 @@ func emVMEffects(c *Ctx) map[string]vmEffect {
 		}
 		return fv
 	}
-	push, pop := map[*types.Func]bool{}, map[*types.Func]bool{}
-	var stackField *types.Var
-	for fn, m := range decl {
+	// the operand stack: the slice-of-cells field of the core that its methods both append to and
+	// re-slice. Its operations are recognised where they are written (`F = append(F, v)` pushes,
+	// `F = F[:len(F)-k]` pops k), so push / pop / peek-and-drop helpers of any shape are just helpers.
+	type fieldOps struct{ app, cut int }
+	cands := map[*types.Var]*fieldOps{}
+	for _, m := range decl {
 		if m.Recv == nil || recvTypeName(m.Recv.List[0].Type) != "Core" {
-			continue
-		}
-		sig := fn.Type().(*types.Signature)
-		isPushSig := sig.Params().Len() == 1 && isCellT(sig.Params().At(0).Type()) && sig.Results().Len() == 0
-		isPopSig := sig.Params().Len() == 0 && sig.Results().Len() == 1 && isCellT(sig.Results().At(0).Type())
-		if !isPushSig && !isPopSig {
 			continue
 		}
 		ast.Inspect(m.Body, func(n ast.Node) bool {
@@ -185,44 +194,200 @@ func emVMEffects(c *Ctx) map[string]vmEffect {
 			if fv == nil {
 				return true
 			}
+			if cands[fv] == nil {
+				cands[fv] = &fieldOps{}
+			}
 			switch r := ast.Unparen(as.Rhs[0]).(type) {
 			case *ast.CallExpr:
-				if id, ok := r.Fun.(*ast.Ident); ok && id.Name == "append" && isPushSig {
-					push[fn] = true
-					stackField = fv
+				if id, ok := r.Fun.(*ast.Ident); ok && id.Name == "append" {
+					cands[fv].app++
 				}
 			case *ast.SliceExpr:
-				if isPopSig {
-					pop[fn] = true
-					stackField = fv
-				}
+				cands[fv].cut++
 			}
 			return true
 		})
 	}
-	if len(push) == 0 || len(pop) == 0 || stackField == nil {
-		fatalf("anchor unresolved: the VM's operand-stack push/pop primitives (Core methods appending to / re-slicing a slice of value cells)")
+	var stackField *types.Var
+	for fv, ops := range cands {
+		if ops.app == 0 || ops.cut == 0 {
+			continue
+		}
+		if stackField == nil || ops.app+ops.cut > cands[stackField].app+cands[stackField].cut || (ops.app+ops.cut == cands[stackField].app+cands[stackField].cut && fv.Name() < stackField.Name()) {
+			stackField = fv
+		}
+	}
+	if stackField == nil {
+		fatalf("anchor unresolved: the VM's operand stack (a field of the core, a slice of value cells, that its methods append to and re-slice)")
+	}
+	// stackOp: the effect of `recv.F = ...` on the operand stack (ok=false: not an operation on it)
+	stackOp := func(as *ast.AssignStmt, recv types.Object, walked ast.Node) (pushes, pops int, ok bool) {
+		if len(as.Lhs) != 1 || len(as.Rhs) != 1 || recv == nil {
+			return 0, 0, false
+		}
+		onField := func(x ast.Expr) bool {
+			sel, ok := ast.Unparen(x).(*ast.SelectorExpr)
+			if !ok || info.Uses[sel.Sel] != stackField {
+				return false
+			}
+			id, ok := ast.Unparen(sel.X).(*ast.Ident)
+			return ok && info.Uses[id] == recv
+		}
+		if !onField(as.Lhs[0]) {
+			return 0, 0, false
+		}
+		switch r := ast.Unparen(as.Rhs[0]).(type) {
+		case *ast.CallExpr:
+			if id, isId := r.Fun.(*ast.Ident); isId && id.Name == "append" && len(r.Args) >= 1 && onField(r.Args[0]) && !r.Ellipsis.IsValid() {
+				return len(r.Args) - 1, 0, true
+			}
+		case *ast.SliceExpr:
+			// F[:len(F)-k], the bound possibly held in a local (`top := len(F) - 1; F = F[:top]`)
+			if onField(r.X) && r.Low == nil && r.High != nil {
+				// lenForm: x = len(F)·c + k
+				var lenForm func(x ast.Expr, depth int) (c, k int, ok bool)
+				lenForm = func(x ast.Expr, depth int) (int, int, bool) {
+					x = ast.Unparen(x)
+					if tv, has := info.Types[x]; has && tv.Value != nil {
+						if v, exact := constant.Int64Val(constant.ToInt(tv.Value)); exact {
+							return 0, int(v), true
+						}
+						return 0, 0, false
+					}
+					switch t := x.(type) {
+					case *ast.CallExpr:
+						if info.Types[t.Fun].IsType() && len(t.Args) == 1 {
+							return lenForm(t.Args[0], depth)
+						}
+						if id, isId := t.Fun.(*ast.Ident); isId && id.Name == "len" && len(t.Args) == 1 && onField(t.Args[0]) {
+							return 1, 0, true
+						}
+					case *ast.BinaryExpr:
+						c1, k1, ok1 := lenForm(t.X, depth)
+						c2, k2, ok2 := lenForm(t.Y, depth)
+						if ok1 && ok2 {
+							switch t.Op {
+							case token.ADD:
+								return c1 + c2, k1 + k2, true
+							case token.SUB:
+								return c1 - c2, k1 - k2, true
+							}
+						}
+					case *ast.Ident:
+						// a local assigned exactly once
+						obj := info.Uses[t]
+						if obj == nil || depth > 3 || walked == nil {
+							return 0, 0, false
+						}
+						var def ast.Expr
+						n := 0
+						ast.Inspect(walked, func(m ast.Node) bool {
+							switch y := m.(type) {
+							case *ast.AssignStmt:
+								for i, l := range y.Lhs {
+									if lid, isId := l.(*ast.Ident); isId && (info.Defs[lid] == obj || info.Uses[lid] == obj) {
+										n++
+										if len(y.Lhs) == len(y.Rhs) {
+											def = y.Rhs[i]
+										}
+									}
+								}
+							case *ast.IncDecStmt:
+								if lid, isId := y.X.(*ast.Ident); isId && info.Uses[lid] == obj {
+									n += 2
+								}
+							}
+							return true
+						})
+						if n == 1 && def != nil {
+							return lenForm(def, depth+1)
+						}
+					}
+					return 0, 0, false
+				}
+				if c, k, ok := lenForm(r.High, 0); ok && c == 1 && k <= 0 {
+					return 0, -k, true
+				}
+				// a cut of unknown length
+				return 0, -1, true
+			}
+		}
+		return 0, 0, false
 	}
 	// ---- per-function summaries: the set of net effects over the normally completing paths ----
-	type st struct {
+	// A state carries a SET of alternatives (a callee with several effects multiplies them), so that the
+	// variants of an opcode survive when its implementation sits behind a helper or a second dispatcher.
+	type alt struct {
 		h, loop      int
 		pops, pushes int
 	}
+	type st struct {
+		alts []alt
+		bad  string // a callee on this path has an effect that could not be extracted
+	}
 	type summ struct {
-		variants []st
+		variants []alt
 		bad      string
 	}
-	memo := map[*types.Func]*summ{}
-	inProgress := map[*types.Func]bool{}
-	var summarise func(fn *types.Func, depth int) *summ
-	var walkBody func(body *ast.BlockStmt, recv types.Object, depth int) *summ
+	type memoKey struct {
+		fn *types.Func
+		op string
+	}
+	memo := map[memoKey]*summ{}
+	inProgress := map[memoKey]bool{}
+	var summarise func(fn *types.Func, depth int, op string) *summ
+	var walkBody func(body *ast.BlockStmt, recv types.Object, depth int, op string) *summ
 	recvOf := func(m *ast.FuncDecl) types.Object {
 		if m.Recv != nil && len(m.Recv.List[0].Names) > 0 {
 			return info.Defs[m.Recv.List[0].Names[0]]
 		}
 		return nil
 	}
-	apply := func(s *st, call *ast.CallExpr, recv types.Object, depth int) {
+	isOpcodeSwitch := func(s *ast.SwitchStmt) bool {
+		if s.Tag == nil {
+			return false
+		}
+		t := info.TypeOf(s.Tag)
+		return t != nil && types.Identical(t, opT)
+	}
+	// does the function (transitively, on this core) dispatch on the opcode? Only those are specialised per opcode.
+	opAware := map[*types.Func]int{} // 0 unknown, 1 no, 2 yes
+	var isOpAware func(fn *types.Func, depth int) bool
+	isOpAware = func(fn *types.Func, depth int) bool {
+		if v := opAware[fn]; v != 0 {
+			return v == 2
+		}
+		d := decl[fn]
+		if d == nil || depth > 4 {
+			return false
+		}
+		opAware[fn] = 1
+		found := false
+		ast.Inspect(d.Body, func(n ast.Node) bool {
+			switch x := n.(type) {
+			case *ast.SwitchStmt:
+				if isOpcodeSwitch(x) {
+					found = true
+				}
+			case *ast.BinaryExpr:
+				if x.Op == token.EQL || x.Op == token.NEQ {
+					if tx, ty := info.TypeOf(x.X), info.TypeOf(x.Y); tx != nil && ty != nil && types.Identical(tx, opT) && types.Identical(ty, opT) {
+						found = true
+					}
+				}
+			case *ast.CallExpr:
+				if g := CalleeOf(info, x); g != nil && g != fn && decl[g] != nil && isOpAware(g, depth+1) {
+					found = true
+				}
+			}
+			return !found
+		})
+		if found {
+			opAware[fn] = 2
+		}
+		return found
+	}
+	apply := func(s *st, call *ast.CallExpr, recv types.Object, depth int, op string) {
 		fn := CalleeOf(info, call)
 		if fn == nil {
 			return
@@ -237,32 +402,49 @@ func emVMEffects(c *Ctx) map[string]vmEffect {
 		if !onSelf {
 			return
 		}
-		switch {
-		case push[fn]:
-			s.h++
-			s.pushes++
-		case pop[fn]:
-			s.h--
-			s.pops++
-		default:
-			if d := decl[fn]; d != nil && depth < 5 {
-				if sm := summarise(fn, depth+1); sm != nil && sm.bad == "" && len(sm.variants) >= 1 {
-					// a helper with one effect on all its normal paths (the usual case); several: take the first and
-					// let the caller's variant set record the others through emHelperVariants
-					v := sm.variants[0]
-					s.h += v.h
-					s.pops += v.pops
-					s.pushes += v.pushes
-					if v.loop != 0 {
-						s.loop = v.loop
+		{
+			if d := decl[fn]; d != nil && depth < 6 {
+				cop := ""
+				if isOpAware(fn, 0) {
+					cop = op
+				}
+				sm := summarise(fn, depth+1, cop)
+				if sm != nil && sm.bad != "" && s.bad == "" {
+					s.bad = sm.bad
+				}
+				if sm != nil && sm.bad == "" && len(sm.variants) >= 1 {
+					var out []alt
+					seen := map[alt]bool{}
+					for _, a := range s.alts {
+						for _, v := range sm.variants {
+							n := alt{h: a.h + v.h, loop: a.loop, pops: a.pops + v.pops, pushes: a.pushes + v.pushes}
+							if v.loop != 0 {
+								n.loop = v.loop
+							}
+							k := alt{h: n.h, loop: n.loop}
+							if !seen[k] {
+								seen[k] = true
+								out = append(out, n)
+							}
+						}
 					}
+					s.alts = out
 				}
 			}
 		}
 	}
 	// direct writes to the stack field outside the primitives: re-slicing to a shorter length etc. are not modelled
-	walkBody = func(body *ast.BlockStmt, recv types.Object, depth int) *summ {
+	walkBody = func(body *ast.BlockStmt, recv types.Object, depth int, op string) *summ {
 		out := &summ{}
+		popLike := func() bool {
+			for fn, d := range decl {
+				if d.Body == body {
+					sig := fn.Type().(*types.Signature)
+					return sig.Params().Len() == 0 && sig.Results().Len() == 1
+				}
+			}
+			return false
+		}
 		count := func(s *st, n ast.Node) {
 			// post-order: arguments before the call
 			var visit func(m ast.Node)
@@ -278,7 +460,7 @@ func emVMEffects(c *Ctx) map[string]vmEffect {
 						if sel, ok := ast.Unparen(x.Fun).(*ast.SelectorExpr); ok {
 							visit(sel.X)
 						}
-						apply(s, x, recv, depth)
+						apply(s, x, recv, depth, op)
 						return false
 					}
 					return true
@@ -287,7 +469,7 @@ func emVMEffects(c *Ctx) map[string]vmEffect {
 			visit(n)
 		}
 		w := &Walker[*st]{
-			Clone:   func(s *st) *st { c := *s; return &c },
+			Clone:   func(s *st) *st { return &st{alts: append([]alt(nil), s.alts...), bad: s.bad} },
 			IsPanic: func(s ast.Stmt) bool { return IsPanicCall(info, s) || emAlwaysPanics(info, decl, s) },
 			OnStmt: func(s *st, stmt ast.Stmt) (*st, bool) {
 				if r, ok := stmt.(*ast.ReturnStmt); ok {
@@ -297,22 +479,81 @@ func emVMEffects(c *Ctx) map[string]vmEffect {
 					return s, true
 				}
 				count(s, stmt)
+				if as, ok := stmt.(*ast.AssignStmt); ok {
+					if pu, po, ok := stackOp(as, recv, body); ok {
+						if po < 0 {
+							// cannot be decoded: a method shaped like pop (no parameter, one result) pops one
+							// value, anything else makes the effect of the opcodes that use it unknown
+							po = 1
+							if popLike == nil || !popLike() {
+								out.bad = "the operand stack is cut to a length the analysis cannot decode at " + c.Pos(as.Pos())
+							}
+						}
+						for i := range s.alts {
+							s.alts[i].h += pu - po
+							s.alts[i].pushes += pu
+							s.alts[i].pops += po
+						}
+					}
+				}
 				return s, true
 			},
 			OnCond: func(s *st, cond ast.Expr, taken bool) (*st, bool) {
+				// a comparison of the opcode with a constant is decided by the opcode the walk is specialised to
+				if b, ok := ast.Unparen(cond).(*ast.BinaryExpr); ok && op != "" && (b.Op == token.EQL || b.Op == token.NEQ) {
+					x, y := b.X, b.Y
+					if ConstOf(info, x) != nil {
+						x, y = y, x
+					}
+					if k := ConstOf(info, y); k != nil && types.Identical(k.Type(), opT) {
+						if t := info.TypeOf(x); t != nil && types.Identical(t, opT) {
+							if ((k.Name() == op) == (b.Op == token.EQL)) != taken {
+								return s, false
+							}
+						}
+					}
+				}
 				count(s, cond)
 				return s, true
 			},
-			OnCase:  func(s *st, sw *ast.SwitchStmt, vals, others []ast.Expr) (*st, bool) { return s, true },
+			OnCase: func(s *st, sw *ast.SwitchStmt, vals, others []ast.Expr) (*st, bool) {
+				// the walk is specialised to one opcode: of a switch over the opcode only the clause
+				// of that opcode (the default clause when no clause names it) is feasible
+				if op == "" || !isOpcodeSwitch(sw) {
+					return s, true
+				}
+				names := func(l []ast.Expr) bool {
+					for _, e := range l {
+						if k := ConstOf(info, e); k != nil && k.Name() == op {
+							return true
+						}
+					}
+					return false
+				}
+				if vals != nil {
+					return s, names(vals)
+				}
+				return s, !names(others)
+			},
 			OnDefer: func(s *st, d *ast.DeferStmt) (*st, bool) { return s, true },
 			LoopSummary: func(loop ast.Stmt, before *st, ends []*st) (*st, bool) {
-				post := *before
+				post := &st{alts: append([]alt(nil), before.alts...), bad: before.bad}
 				for _, e := range ends {
-					if d := e.h - before.h; d != 0 {
-						post.loop = d
+					if e.bad != "" {
+						post.bad = e.bad
 					}
 				}
-				return &post, true
+				for _, e := range ends {
+					if len(e.alts) == 0 || len(before.alts) == 0 {
+						continue
+					}
+					if d := e.alts[0].h - before.alts[0].h; d != 0 {
+						for i := range post.alts {
+							post.alts[i].loop = d
+						}
+					}
+				}
+				return post, true
 			},
 		}
 		w.Exit = func(s *st, o outcome) {
@@ -328,7 +569,24 @@ func emVMEffects(c *Ctx) map[string]vmEffect {
 						if pt, ok := t.(*types.Pointer); ok {
 							if nm, ok := pt.Elem().(*types.Named); ok && strings.Contains(nm.Obj().Name(), "Interrupt") {
 								if id, ok := last.(*ast.Ident); !ok || id.Name != "nil" {
-									return
+									// `return self.dispatchRest(instruction)`: the result of a function of this core
+									// that has normally completing paths (their effect has been applied): those
+									// paths are this function's normal completion too
+									forwards := false
+									if call, ok := last.(*ast.CallExpr); ok {
+										if g := CalleeOf(info, call); g != nil && decl[g] != nil && depth < 5 {
+											cop := ""
+											if isOpAware(g, 0) {
+												cop = op
+											}
+											if sm := summarise(g, depth+1, cop); sm != nil && sm.bad == "" && len(sm.variants) > 0 {
+												forwards = true
+											}
+										}
+									}
+									if !forwards {
+										return
+									}
 								}
 							}
 						}
@@ -339,110 +597,94 @@ func emVMEffects(c *Ctx) map[string]vmEffect {
 			for _, d := range w.PendingDefers() {
 				count(s, d.Call)
 			}
-			out.variants = append(out.variants, *s)
+			out.variants = append(out.variants, s.alts...)
+			if s.bad != "" && out.bad == "" {
+				out.bad = s.bad
+			}
 		}
-		w.Run(body, &st{})
+		w.Run(body, &st{alts: []alt{{}}})
 		if w.Overflow || len(w.Unsupported) > 0 {
 			out.bad = "path enumeration overflow / unsupported control flow"
 		}
-		return out
-	}
-	summarise = func(fn *types.Func, depth int) *summ {
-		if sm, ok := memo[fn]; ok {
-			return sm
-		}
-		if inProgress[fn] {
-			return nil // recursion: not summarised
-		}
-		inProgress[fn] = true
-		sm := walkBody(decl[fn].Body, recvOf(decl[fn]), depth)
-		inProgress[fn] = false
 		// dedup
-		seen := map[st]bool{}
-		var uniq []st
-		for _, v := range sm.variants {
-			k := st{h: v.h, loop: v.loop}
+		seen := map[alt]bool{}
+		var uniq []alt
+		for _, v := range out.variants {
+			k := alt{h: v.h, loop: v.loop}
 			if !seen[k] {
 				seen[k] = true
 				uniq = append(uniq, v)
 			}
 		}
-		sm.variants = uniq
-		memo[fn] = sm
+		out.variants = uniq
+		return out
+	}
+	summarise = func(fn *types.Func, depth int, op string) *summ {
+		key := memoKey{fn, op}
+		if sm, ok := memo[key]; ok {
+			return sm
+		}
+		if inProgress[key] {
+			return nil // recursion: not summarised
+		}
+		inProgress[key] = true
+		sm := walkBody(decl[fn].Body, recvOf(decl[fn]), depth, op)
+		inProgress[key] = false
+		memo[key] = sm
 		return sm
 	}
-	// ---- the dispatch: the root switch over the opcode, continued through its default clause ----
-	isOpcodeSwitch := func(s *ast.SwitchStmt) bool {
-		if s.Tag == nil {
-			return false
-		}
-		t := info.TypeOf(s.Tag)
-		return t != nil && types.Identical(t, opT)
-	}
-	type clause struct {
-		cc *ast.CaseClause
-	}
-	clauses := map[string]*ast.CaseClause{}
-	clauseRecv := map[*ast.CaseClause]types.Object{}
+	// ---- the dispatch: every opcode named by a clause of a switch over the opcode that the dispatcher
+	// reaches (its own switch, a second dispatcher behind the default clause or behind a clause listing
+	// several opcodes, ...). The effect of an opcode is the effect of the DISPATCHER specialised to it.
+	hasClause := map[string]bool{}
+	seenFn := map[*types.Func]bool{}
 	var collect func(fdecl *ast.FuncDecl, depth int)
 	collect = func(fdecl *ast.FuncDecl, depth int) {
-		var sw *ast.SwitchStmt
-		best := 0
+		self, _ := info.Defs[fdecl.Name].(*types.Func)
+		if self != nil {
+			if seenFn[self] {
+				return
+			}
+			seenFn[self] = true
+		}
 		ast.Inspect(fdecl.Body, func(n ast.Node) bool {
-			if s, ok := n.(*ast.SwitchStmt); ok && isOpcodeSwitch(s) {
-				cnt := 0
-				for _, cl := range s.Body.List {
-					cnt += len(cl.(*ast.CaseClause).List)
+			switch x := n.(type) {
+			case *ast.SwitchStmt:
+				if isOpcodeSwitch(x) {
+					for _, cl := range x.Body.List {
+						for _, e := range cl.(*ast.CaseClause).List {
+							if k := ConstOf(info, e); k != nil {
+								hasClause[k.Name()] = true
+							}
+						}
+					}
 				}
-				if cnt > best {
-					sw, best = s, cnt
+			case *ast.BinaryExpr:
+				// an opcode handled by a comparison (`if opcode == X { ... }`) instead of a clause
+				if x.Op == token.EQL {
+					for _, pair := range [][2]ast.Expr{{x.X, x.Y}, {x.Y, x.X}} {
+						if k := ConstOf(info, pair[1]); k != nil && types.Identical(k.Type(), opT) {
+							if t := info.TypeOf(pair[0]); t != nil && types.Identical(t, opT) && ConstOf(info, pair[0]) == nil {
+								hasClause[k.Name()] = true
+							}
+						}
+					}
+				}
+			case *ast.CallExpr:
+				if g := CalleeOf(info, x); g != nil && decl[g] != nil && depth < 3 && isOpAware(g, 0) {
+					collect(decl[g], depth+1)
 				}
 			}
 			return true
 		})
-		if sw == nil {
-			return
-		}
-		for _, cl := range sw.Body.List {
-			cc := cl.(*ast.CaseClause)
-			if cc.List == nil {
-				// split dispatch: default hands the instruction to another dispatcher
-				if depth < 3 {
-					for _, stmt := range cc.Body {
-						ast.Inspect(stmt, func(n ast.Node) bool {
-							if call, ok := n.(*ast.CallExpr); ok {
-								if g := CalleeOf(info, call); g != nil && decl[g] != nil && g != info.Defs[fdecl.Name] {
-									collect(decl[g], depth+1)
-								}
-							}
-							return true
-						})
-					}
-				}
-				continue
-			}
-			for _, e := range cc.List {
-				if k := ConstOf(info, e); k != nil {
-					if _, dup := clauses[k.Name()]; !dup {
-						clauses[k.Name()] = cc
-						clauseRecv[cc] = recvOf(fdecl)
-					}
-				}
-			}
-		}
 	}
 	collect(fd, 0)
-	if len(clauses) < 20 {
-		fatalf("anchor unresolved: the VM's dispatch over compiler.Opcode (found %d opcode clauses)", len(clauses))
+	if len(hasClause) < 20 {
+		fatalf("anchor unresolved: the VM's dispatch over compiler.Opcode (found %d opcode clauses)", len(hasClause))
 	}
 	out := map[string]vmEffect{}
-	bodyMemo := map[*ast.CaseClause]*summ{}
-	for name, cc := range clauses {
-		sm := bodyMemo[cc]
-		if sm == nil {
-			sm = walkBody(&ast.BlockStmt{List: cc.Body}, clauseRecv[cc], 0)
-			bodyMemo[cc] = sm
-		}
+	for name := range hasClause {
+		sm := walkBody(fd.Body, recvOf(fd), 0, name)
 		eff := vmEffect{ok: true, hasCase: true}
 		seen := map[string]bool{}
 		for i, r := range sm.variants {
@@ -471,16 +713,25 @@ func emVMEffects(c *Ctx) map[string]vmEffect {
 		if sm.bad != "" {
 			eff.ok = false
 			eff.detail = sm.bad
+			eff.unknown = sm.bad
 		}
 		out[name] = eff
 	}
 	return out
 }
 
-// emAlwaysPanics: an expression statement calling a function of the package every path of which panics.
+// emAlwaysPanics: an expression statement calling a function of the package every path of which panics
+// (directly or through another such function).
 func emAlwaysPanics(info *types.Info, decl map[*types.Func]*ast.FuncDecl, s ast.Stmt) bool {
+	return emStmtDiverges(info, decl, s, 0)
+}
+
+func emStmtDiverges(info *types.Info, decl map[*types.Func]*ast.FuncDecl, s ast.Stmt, depth int) bool {
+	if IsPanicCall(info, s) {
+		return true
+	}
 	es, ok := s.(*ast.ExprStmt)
-	if !ok {
+	if !ok || depth > 3 {
 		return false
 	}
 	call, ok := es.X.(*ast.CallExpr)
@@ -492,15 +743,1552 @@ func emAlwaysPanics(info *types.Info, decl map[*types.Func]*ast.FuncDecl, s ast.
 	if fn == nil || d == nil || len(d.Body.List) == 0 {
 		return false
 	}
-	// conservative: the body's last statement is a panic and it has no return statement
+	// conservative: the body has no return statement and its last statement diverges
 	hasRet := false
 	ast.Inspect(d.Body, func(n ast.Node) bool {
-		if _, ok := n.(*ast.ReturnStmt); ok {
+		switch n.(type) {
+		case *ast.ReturnStmt:
 			hasRet = true
+		case *ast.FuncLit:
+			return false
 		}
 		return true
 	})
-	return !hasRet && IsPanicCall(info, d.Body.List[len(d.Body.List)-1])
+	return !hasRet && emStmtDiverges(info, decl, d.Body.List[len(d.Body.List)-1], depth+1)
+}
+
+// ---- values: opcodes (and the data they flow through) as a small abstract domain ----
+//
+// The opcode of an emitted instruction need not be a constant argument: it may flow through a
+// local, a tuple returned by a helper (`opcode, negate := infixOpcode(op)`), a table written as
+// data (`map[Operator]Opcode{...}`, possibly completed by statements of a builder function), a
+// struct row of such a table or a parameter of an emit helper. Values are evaluated to a small
+// set of alternatives; alternatives that belong together (the results of one call, the value and
+// the ok flag of one lookup) are kept as ROWS of a group, so that a later test of one of them
+// (`if negate`, `if !found`) selects the matching rows of the others.
+
+type emVK int
+
+const (
+	evUnknown emVK = iota
+	evConst        // a named constant (c)
+	evLit          // another compile-time constant (lit)
+	evNil          // nil
+	evTuple        // the results of a multi-result call (tup)
+	evTable        // map / slice / array written as data (tbl)
+	evStruct       // struct written as a composite literal (flds)
+)
+
+type emVal struct {
+	k    emVK
+	c    *types.Const
+	lit  constant.Value
+	tup  []emVal
+	tbl  *emTable
+	flds map[string]emVal
+}
+
+type emTable struct {
+	isMap      bool
+	keys, vals []emVal
+	zero       emVal
+}
+
+func emBool(b bool) emVal { return emVal{k: evLit, lit: constant.MakeBool(b)} }
+
+func (v emVal) boolVal() (b, ok bool) {
+	switch v.k {
+	case evLit:
+		if v.lit.Kind() == constant.Bool {
+			return constant.BoolVal(v.lit), true
+		}
+	case evConst:
+		if v.c.Val().Kind() == constant.Bool {
+			return constant.BoolVal(v.c.Val()), true
+		}
+	}
+	return false, false
+}
+
+func (v emVal) known() bool { return v.k != evUnknown }
+
+func (v emVal) key() string {
+	switch v.k {
+	case evConst:
+		p := ""
+		if v.c.Pkg() != nil {
+			p = v.c.Pkg().Path()
+		}
+		return "c:" + p + "." + v.c.Name()
+	case evLit:
+		return "l:" + v.lit.ExactString()
+	case evNil:
+		return "nil"
+	case evTuple:
+		var b []string
+		for _, t := range v.tup {
+			b = append(b, t.key())
+		}
+		return "(" + strings.Join(b, ",") + ")"
+	case evTable:
+		var b []string
+		for i := range v.tbl.vals {
+			k := ""
+			if i < len(v.tbl.keys) {
+				k = v.tbl.keys[i].key()
+			}
+			b = append(b, k+"=>"+v.tbl.vals[i].key())
+		}
+		return "T{" + strings.Join(b, ";") + "}"
+	case evStruct:
+		var names []string
+		for n := range v.flds {
+			names = append(names, n)
+		}
+		sort.Strings(names)
+		var b []string
+		for _, n := range names {
+			b = append(b, n+":"+v.flds[n].key())
+		}
+		return "S{" + strings.Join(b, ";") + "}"
+	}
+	return "?"
+}
+
+// constant value of a const / literal value
+func (v emVal) cval() constant.Value {
+	switch v.k {
+	case evConst:
+		return v.c.Val()
+	case evLit:
+		return v.lit
+	}
+	return nil
+}
+
+// emSameVal: are a and b the same value (known=false when that cannot be decided).
+func emSameVal(a, b emVal) (same, known bool) {
+	if a.k == evUnknown || b.k == evUnknown {
+		return false, false
+	}
+	if a.k == evNil || b.k == evNil {
+		if a.k == evNil && b.k == evNil {
+			return true, true
+		}
+		// a table / struct / constant is not nil; anything else is not decided
+		o := a
+		if a.k == evNil {
+			o = b
+		}
+		if o.k == evTable || o.k == evStruct || o.k == evConst || o.k == evLit {
+			return false, true
+		}
+		return false, false
+	}
+	av, bv := a.cval(), b.cval()
+	if av != nil && bv != nil {
+		if av.Kind() != bv.Kind() && !(av.Kind() == constant.Int && bv.Kind() == constant.Float || av.Kind() == constant.Float && bv.Kind() == constant.Int) {
+			return false, true
+		}
+		return constant.Compare(av, token.EQL, bv), true
+	}
+	return false, false
+}
+
+func emDedupVals(in []emVal) []emVal {
+	seen := map[string]bool{}
+	var out []emVal
+	for _, v := range in {
+		k := v.key()
+		if !seen[k] {
+			seen[k] = true
+			out = append(out, v)
+		}
+	}
+	return out
+}
+
+// ---- row groups ----
+
+type emGroup struct {
+	cols map[types.Object]int
+	rows [][]emVal
+}
+
+func (s *emSt) groupOf(obj types.Object) (gi, col int) {
+	for i, g := range s.groups {
+		if c, ok := g.cols[obj]; ok {
+			return i, c
+		}
+	}
+	return -1, -1
+}
+
+// valsOf: the alternatives an object may hold (nil: not tracked).
+func (s *emSt) valsOf(obj types.Object) []emVal {
+	gi, col := s.groupOf(obj)
+	if gi < 0 {
+		return nil
+	}
+	var out []emVal
+	for _, r := range s.groups[gi].rows {
+		out = append(out, r[col])
+	}
+	return emDedupVals(out)
+}
+
+func (s *emSt) unbind(obj types.Object) {
+	if obj == nil {
+		return
+	}
+	gi, _ := s.groupOf(obj)
+	if gi < 0 {
+		return
+	}
+	g := s.groups[gi]
+	ng := &emGroup{cols: map[types.Object]int{}, rows: g.rows}
+	for o, c := range g.cols {
+		if o != obj {
+			ng.cols[o] = c
+		}
+	}
+	if len(ng.cols) == 0 {
+		s.groups = append(append([]*emGroup(nil), s.groups[:gi]...), s.groups[gi+1:]...)
+		return
+	}
+	s.groups[gi] = ng
+}
+
+// bindRows binds the objects (nil entries: blank) to the columns of rows.
+func (s *emSt) bindRows(objs []types.Object, rows [][]emVal) {
+	for _, o := range objs {
+		s.unbind(o)
+	}
+	anyKnown := false
+	seen := map[string]bool{}
+	var uniq [][]emVal
+	for _, r := range rows {
+		var ks []string
+		for _, v := range r {
+			ks = append(ks, v.key())
+			if v.known() {
+				anyKnown = true
+			}
+		}
+		k := strings.Join(ks, "|")
+		if !seen[k] {
+			seen[k] = true
+			uniq = append(uniq, r)
+		}
+	}
+	if !anyKnown || len(uniq) == 0 || len(uniq) > 256 {
+		return
+	}
+	g := &emGroup{cols: map[types.Object]int{}, rows: uniq}
+	for i, o := range objs {
+		if o != nil {
+			g.cols[o] = i
+		}
+	}
+	if len(g.cols) == 0 {
+		return
+	}
+	s.groups = append(s.groups, g)
+}
+
+// aliasCol makes obj another name of the column of old (a parameter bound to a tracked local).
+func (s *emSt) aliasCol(obj, old types.Object) bool {
+	gi, col := s.groupOf(old)
+	if gi < 0 || obj == nil || obj == old {
+		return false
+	}
+	s.unbind(obj)
+	gi, col = s.groupOf(old)
+	if gi < 0 {
+		return false
+	}
+	g := s.groups[gi]
+	ng := &emGroup{cols: map[types.Object]int{}, rows: g.rows}
+	for o, c := range g.cols {
+		ng.cols[o] = c
+	}
+	ng.cols[obj] = col
+	s.groups[gi] = ng
+	return true
+}
+
+// ---- evaluation ----
+
+type emDeclInfo struct {
+	fd   *ast.FuncDecl
+	info *types.Info
+}
+
+type emPkgVar struct {
+	init    ast.Expr
+	info    *types.Info
+	mutated bool
+	// element assignments `v[k] = x` made at the top level of an init function of the package: part
+	// of the variable's initial value
+	initWrites []*ast.AssignStmt
+	val        *emVal
+	busy       bool
+}
+
+func (e *emitter) buildIndex() {
+	e.decls = map[*types.Func]emDeclInfo{}
+	e.pkgVars = map[*types.Var]*emPkgVar{}
+	e.pureMemo = map[string][]emVal{}
+	for _, p := range e.c.All {
+		info := p.TypesInfo
+		for _, f := range p.Syntax {
+			for _, d := range f.Decls {
+				switch x := d.(type) {
+				case *ast.FuncDecl:
+					if x.Body != nil {
+						if fn, ok := info.Defs[x.Name].(*types.Func); ok {
+							e.decls[fn] = emDeclInfo{x, info}
+						}
+					}
+				case *ast.GenDecl:
+					if x.Tok != token.VAR {
+						continue
+					}
+					for _, sp := range x.Specs {
+						vs := sp.(*ast.ValueSpec)
+						if len(vs.Values) != len(vs.Names) {
+							continue
+						}
+						for i, n := range vs.Names {
+							if v, ok := info.Defs[n].(*types.Var); ok {
+								e.pkgVars[v] = &emPkgVar{init: vs.Values[i], info: info}
+							}
+						}
+					}
+				}
+			}
+		}
+	}
+	// a package-level table is data only when nothing assigns to it (or to an element of it) and nothing
+	// takes its address
+	rootVar := func(info *types.Info, x ast.Expr) *types.Var {
+		for {
+			switch t := ast.Unparen(x).(type) {
+			case *ast.IndexExpr:
+				x = t.X
+				continue
+			case *ast.StarExpr:
+				x = t.X
+				continue
+			case *ast.SelectorExpr:
+				if v, ok := info.Uses[t.Sel].(*types.Var); ok && !v.IsField() {
+					return v
+				}
+				x = t.X
+				continue
+			case *ast.Ident:
+				v, _ := info.Uses[t].(*types.Var)
+				return v
+			}
+			return nil
+		}
+	}
+	for _, p := range e.c.All {
+		info := p.TypesInfo
+		for _, f := range p.Syntax {
+			// statements at the top level of an init function
+			inInit := map[ast.Stmt]bool{}
+			for _, d := range f.Decls {
+				if fd, ok := d.(*ast.FuncDecl); ok && fd.Recv == nil && fd.Name.Name == "init" && fd.Body != nil {
+					for _, st := range fd.Body.List {
+						inInit[st] = true
+					}
+				}
+			}
+			ast.Inspect(f, func(n ast.Node) bool {
+				mark := func(x ast.Expr) {
+					if v := rootVar(info, x); v != nil {
+						if pv := e.pkgVars[v]; pv != nil {
+							pv.mutated = true
+						}
+					}
+				}
+				switch x := n.(type) {
+				case *ast.AssignStmt:
+					if inInit[x] && x.Tok == token.ASSIGN && len(x.Lhs) == 1 && len(x.Rhs) == 1 {
+						if ix, ok := ast.Unparen(x.Lhs[0]).(*ast.IndexExpr); ok {
+							if v := rootVar(info, ix.X); v != nil && v.Pkg() == p.Types {
+								if _, direct := ast.Unparen(ix.X).(*ast.Ident); direct {
+									if pv := e.pkgVars[v]; pv != nil {
+										pv.initWrites = append(pv.initWrites, x)
+										return true
+									}
+								}
+							}
+						}
+					}
+					for _, l := range x.Lhs {
+						mark(l)
+					}
+				case *ast.IncDecStmt:
+					mark(x.X)
+				case *ast.UnaryExpr:
+					if x.Op == token.AND {
+						mark(x.X)
+					}
+				}
+				return true
+			})
+		}
+	}
+}
+
+// mentionsOpcode: values of this type may carry an opcode (the opcode type itself, an instruction,
+// tuples / tables / structs of them).
+func (e *emitter) mentionsOpcode(t types.Type, depth int) bool {
+	if t == nil || depth > 4 {
+		return false
+	}
+	if types.Identical(t, e.opcodeT) {
+		return true
+	}
+	switch u := t.(type) {
+	case *types.Tuple:
+		for i := 0; i < u.Len(); i++ {
+			if e.mentionsOpcode(u.At(i).Type(), depth+1) {
+				return true
+			}
+		}
+		return false
+	case *types.Pointer:
+		return e.mentionsOpcode(u.Elem(), depth+1)
+	}
+	switch u := t.Underlying().(type) {
+	case *types.Map:
+		return e.mentionsOpcode(u.Elem(), depth+1) || e.mentionsOpcode(u.Key(), depth+1)
+	case *types.Slice:
+		return e.mentionsOpcode(u.Elem(), depth+1)
+	case *types.Array:
+		return e.mentionsOpcode(u.Elem(), depth+1)
+	case *types.Struct:
+		for i := 0; i < u.NumFields(); i++ {
+			if e.mentionsOpcode(u.Field(i).Type(), depth+1) {
+				return true
+			}
+		}
+	case *types.Pointer:
+		return e.mentionsOpcode(u.Elem(), depth+1)
+	}
+	return false
+}
+
+func (e *emitter) zeroOf(t types.Type, depth int) emVal {
+	if t == nil || depth > 3 {
+		return emVal{}
+	}
+	if n, ok := types.Unalias(t).(*types.Named); ok {
+		if b, ok := n.Underlying().(*types.Basic); ok && b.Info()&(types.IsInteger|types.IsString|types.IsBoolean) != 0 && n.Obj().Pkg() != nil {
+			// the named constant of this type holding the zero value, first declared
+			var best *types.Const
+			scope := n.Obj().Pkg().Scope()
+			for _, name := range scope.Names() {
+				k, ok := scope.Lookup(name).(*types.Const)
+				if !ok || !types.Identical(k.Type(), n) {
+					continue
+				}
+				z := false
+				switch k.Val().Kind() {
+				case constant.Int:
+					z = constant.Sign(k.Val()) == 0
+				case constant.String:
+					z = constant.StringVal(k.Val()) == ""
+				case constant.Bool:
+					z = !constant.BoolVal(k.Val())
+				}
+				if z && (best == nil || k.Pos() < best.Pos()) {
+					best = k
+				}
+			}
+			if best != nil {
+				return emVal{k: evConst, c: best}
+			}
+		}
+	}
+	switch u := t.Underlying().(type) {
+	case *types.Basic:
+		switch {
+		case u.Info()&types.IsBoolean != 0:
+			return emBool(false)
+		case u.Info()&types.IsInteger != 0:
+			return emVal{k: evLit, lit: constant.MakeInt64(0)}
+		case u.Info()&types.IsString != 0:
+			return emVal{k: evLit, lit: constant.MakeString("")}
+		}
+	case *types.Struct:
+		f := map[string]emVal{}
+		for i := 0; i < u.NumFields(); i++ {
+			f[u.Field(i).Name()] = e.zeroOf(u.Field(i).Type(), depth+1)
+		}
+		return emVal{k: evStruct, flds: f}
+	case *types.Pointer, *types.Interface, *types.Map, *types.Slice, *types.Signature, *types.Chan:
+		return emVal{k: evNil}
+	}
+	return emVal{}
+}
+
+func emProduct(lists [][]emVal, cap int) [][]emVal {
+	out := [][]emVal{{}}
+	for _, l := range lists {
+		if len(l) == 0 {
+			l = []emVal{{}}
+		}
+		var next [][]emVal
+		for _, p := range out {
+			for _, v := range l {
+				next = append(next, append(append([]emVal(nil), p...), v))
+				if len(next) > cap {
+					return nil
+				}
+			}
+		}
+		out = next
+	}
+	return out
+}
+
+// evalAlts: the alternatives expression x may evaluate to. bind: objects fixed to one value (the
+// row under consideration); other tracked objects contribute all their alternatives.
+func (e *emitter) evalAlts(s *emSt, info *types.Info, x ast.Expr, bind map[types.Object]emVal, depth int) []emVal {
+	unknown := []emVal{{}}
+	if x == nil || depth > 6 {
+		return unknown
+	}
+	x = ast.Unparen(x)
+	if k := ConstOf(info, x); k != nil {
+		return []emVal{{k: evConst, c: k}}
+	}
+	if tv, ok := info.Types[x]; ok && tv.Value != nil {
+		return []emVal{{k: evLit, lit: tv.Value}}
+	}
+	switch t := x.(type) {
+	case *ast.Ident:
+		if t.Name == "nil" {
+			if _, ok := info.Uses[t].(*types.Nil); ok {
+				return []emVal{{k: evNil}}
+			}
+		}
+		obj := info.Uses[t]
+		if obj == nil {
+			obj = info.Defs[t]
+		}
+		if obj == nil {
+			return unknown
+		}
+		if v, ok := bind[obj]; ok {
+			return []emVal{v}
+		}
+		if s != nil {
+			if vs := s.valsOf(obj); vs != nil {
+				return vs
+			}
+		}
+		if v, ok := obj.(*types.Var); ok {
+			if pv := e.pkgVal(v, depth); pv != nil {
+				return []emVal{*pv}
+			}
+		}
+		return unknown
+	case *ast.SelectorExpr:
+		if v, ok := info.Uses[t.Sel].(*types.Var); ok && !v.IsField() {
+			if pv := e.pkgVal(v, depth); pv != nil {
+				return []emVal{*pv}
+			}
+			return unknown
+		}
+		var out []emVal
+		for _, b := range e.evalAlts(s, info, t.X, bind, depth+1) {
+			if b.k == evStruct {
+				if f, ok := b.flds[t.Sel.Name]; ok {
+					out = append(out, f)
+					continue
+				}
+			}
+			out = append(out, emVal{})
+		}
+		return emDedupVals(out)
+	case *ast.StarExpr:
+		return e.evalAlts(s, info, t.X, bind, depth+1)
+	case *ast.UnaryExpr:
+		switch t.Op {
+		case token.NOT:
+			var out []emVal
+			for _, v := range e.evalAlts(s, info, t.X, bind, depth+1) {
+				if b, ok := v.boolVal(); ok {
+					out = append(out, emBool(!b))
+				} else {
+					out = append(out, emVal{})
+				}
+			}
+			return emDedupVals(out)
+		case token.AND:
+			return e.evalAlts(s, info, t.X, bind, depth+1)
+		}
+		return unknown
+	case *ast.BinaryExpr:
+		switch t.Op {
+		case token.EQL, token.NEQ, token.LAND, token.LOR:
+			var out []emVal
+			combos := emProduct([][]emVal{e.evalAlts(s, info, t.X, bind, depth+1), e.evalAlts(s, info, t.Y, bind, depth+1)}, 256)
+			if combos == nil {
+				return unknown
+			}
+			for _, c := range combos {
+				a, b := c[0], c[1]
+				switch t.Op {
+				case token.EQL, token.NEQ:
+					same, known := emSameVal(a, b)
+					if !known {
+						out = append(out, emVal{})
+					} else {
+						out = append(out, emBool(same == (t.Op == token.EQL)))
+					}
+				default:
+					ab, aok := a.boolVal()
+					bb, bok := b.boolVal()
+					switch {
+					case t.Op == token.LAND && (aok && !ab || bok && !bb):
+						out = append(out, emBool(false))
+					case t.Op == token.LOR && (aok && ab || bok && bb):
+						out = append(out, emBool(true))
+					case aok && bok && t.Op == token.LAND:
+						out = append(out, emBool(ab && bb))
+					case aok && bok:
+						out = append(out, emBool(ab || bb))
+					default:
+						out = append(out, emVal{})
+					}
+				}
+			}
+			return emDedupVals(out)
+		}
+		return unknown
+	case *ast.CompositeLit:
+		return []emVal{e.literalVal(s, info, t, bind, depth)}
+	case *ast.IndexExpr:
+		combos := emProduct([][]emVal{e.evalAlts(s, info, t.X, bind, depth+1), e.evalAlts(s, info, t.Index, bind, depth+1)}, 256)
+		if combos == nil {
+			return unknown
+		}
+		var out []emVal
+		for _, c := range combos {
+			for _, r := range e.lookup(c[0], c[1]) {
+				out = append(out, r[0])
+			}
+		}
+		return emDedupVals(out)
+	case *ast.CallExpr:
+		if info.Types[t.Fun].IsType() && len(t.Args) == 1 {
+			return e.evalAlts(s, info, t.Args[0], bind, depth+1)
+		}
+		if id, ok := ast.Unparen(t.Fun).(*ast.Ident); ok && id.Name == "make" && len(t.Args) >= 1 {
+			if _, isB := info.Uses[id].(*types.Builtin); isB {
+				// an empty table (a slice made with a length holds zero values: not modelled)
+				if mt := info.TypeOf(t.Args[0]); mt != nil && e.mentionsOpcode(mt, 0) {
+					switch u := mt.Underlying().(type) {
+					case *types.Map:
+						return []emVal{{k: evTable, tbl: &emTable{isMap: true, zero: e.zeroOf(u.Elem(), 0)}}}
+					case *types.Slice:
+						if len(t.Args) == 1 || (len(t.Args) >= 2 && info.Types[t.Args[1]].Value != nil && constant.Sign(info.Types[t.Args[1]].Value) == 0) {
+							return []emVal{{k: evTable, tbl: &emTable{zero: e.zeroOf(u.Elem(), 0)}}}
+						}
+					}
+				}
+				return unknown
+			}
+		}
+		if lit, ok := ast.Unparen(t.Fun).(*ast.FuncLit); ok {
+			// a function literal called where it is written (`var table = func() map[K]V { ... }()`)
+			if ft := info.TypeOf(lit); ft != nil && e.mentionsOpcode(ft.(*types.Signature).Results(), 0) {
+				var lists [][]emVal
+				for _, a := range t.Args {
+					lists = append(lists, e.evalAlts(s, info, a, bind, depth+1))
+				}
+				combos := emProduct(lists, 16)
+				if combos == nil {
+					return unknown
+				}
+				var out []emVal
+				for _, args := range combos {
+					out = append(out, e.evalPureBody(fmt.Sprintf("lit@%d", lit.Pos()), info, lit.Type, lit.Body, args, depth+1)...)
+				}
+				return emDedupVals(out)
+			}
+			return unknown
+		}
+		if s != nil {
+			if rows, ok := s.callRes[t]; ok {
+				// the call has been analysed inline on this path: what that walk returned
+				var out []emVal
+				for _, r := range rows {
+					if len(r) == 1 {
+						out = append(out, r[0])
+					} else {
+						out = append(out, emVal{k: evTuple, tup: r})
+					}
+				}
+				if len(out) > 0 {
+					return emDedupVals(out)
+				}
+				return unknown
+			}
+		}
+		fn := CalleeOf(info, t)
+		if fn == nil {
+			return unknown
+		}
+		sig, _ := fn.Type().(*types.Signature)
+		if sig == nil || !e.mentionsOpcode(sig.Results(), 0) {
+			return unknown
+		}
+		if _, ok := e.decls[fn]; !ok {
+			return unknown
+		}
+		var lists [][]emVal
+		for _, a := range t.Args {
+			lists = append(lists, e.evalAlts(s, info, a, bind, depth+1))
+		}
+		combos := emProduct(lists, 64)
+		if combos == nil {
+			return unknown
+		}
+		var out []emVal
+		for _, args := range combos {
+			out = append(out, e.evalPureCall(fn, args, depth+1)...)
+		}
+		return emDedupVals(out)
+	}
+	return unknown
+}
+
+// lookup: rows (value, found) of tbl[key].
+func (e *emitter) lookup(tbl, key emVal) [][]emVal {
+	if tbl.k != evTable {
+		return [][]emVal{{{}, {}}}
+	}
+	t := tbl.tbl
+	var out [][]emVal
+	if !t.isMap {
+		// slice / array: positional
+		if key.k == evLit || key.k == evConst {
+			if kv := key.cval(); kv != nil && kv.Kind() == constant.Int {
+				if i, ok := constant.Int64Val(kv); ok && i >= 0 && int(i) < len(t.vals) {
+					return [][]emVal{{t.vals[i], emBool(true)}}
+				}
+			}
+			return [][]emVal{{{}, {}}}
+		}
+		for _, v := range t.vals {
+			out = append(out, []emVal{v, emBool(true)})
+		}
+		if len(out) == 0 {
+			out = [][]emVal{{{}, {}}}
+		}
+		return out
+	}
+	if key.known() {
+		undecided := false
+		for i, k := range t.keys {
+			same, known := emSameVal(k, key)
+			if !known {
+				undecided = true
+				continue
+			}
+			if same {
+				return [][]emVal{{t.vals[i], emBool(true)}}
+			}
+		}
+		if !undecided {
+			return [][]emVal{{t.zero, emBool(false)}}
+		}
+	}
+	for _, v := range t.vals {
+		out = append(out, []emVal{v, emBool(true)})
+	}
+	out = append(out, []emVal{t.zero, emBool(false)})
+	return out
+}
+
+// literalVal: a composite literal as a value.
+func (e *emitter) literalVal(s *emSt, info *types.Info, cl *ast.CompositeLit, bind map[types.Object]emVal, depth int) emVal {
+	t := info.TypeOf(cl)
+	if t == nil {
+		return emVal{}
+	}
+	one := func(x ast.Expr, et types.Type) emVal {
+		if inner, ok := x.(*ast.CompositeLit); ok && inner.Type == nil {
+			// elided element type
+			return e.elidedLit(s, info, inner, et, bind, depth+1)
+		}
+		a := e.evalAlts(s, info, x, bind, depth+1)
+		if len(a) == 1 {
+			return a[0]
+		}
+		return emVal{}
+	}
+	switch u := t.Underlying().(type) {
+	case *types.Map:
+		tb := &emTable{isMap: true, zero: e.zeroOf(u.Elem(), 0)}
+		for _, el := range cl.Elts {
+			kv, ok := el.(*ast.KeyValueExpr)
+			if !ok {
+				return emVal{}
+			}
+			tb.keys = append(tb.keys, one(kv.Key, u.Key()))
+			tb.vals = append(tb.vals, one(kv.Value, u.Elem()))
+		}
+		return emVal{k: evTable, tbl: tb}
+	case *types.Slice, *types.Array:
+		var et types.Type
+		if sl, ok := u.(*types.Slice); ok {
+			et = sl.Elem()
+		} else {
+			et = u.(*types.Array).Elem()
+		}
+		tb := &emTable{zero: e.zeroOf(et, 0)}
+		idx := int64(0)
+		for _, el := range cl.Elts {
+			v := el
+			if kv, ok := el.(*ast.KeyValueExpr); ok {
+				// indexed element: [K: v]
+				ka := e.evalAlts(s, info, kv.Key, bind, depth+1)
+				if len(ka) != 1 || ka[0].cval() == nil {
+					return emVal{}
+				}
+				i, ok := constant.Int64Val(constant.ToInt(ka[0].cval()))
+				if !ok || i < 0 || i > 4096 {
+					return emVal{}
+				}
+				idx = i
+				v = kv.Value
+			}
+			for int64(len(tb.vals)) <= idx {
+				tb.vals = append(tb.vals, tb.zero)
+			}
+			tb.vals[idx] = one(v, et)
+			idx++
+		}
+		return emVal{k: evTable, tbl: tb}
+	case *types.Struct:
+		f := map[string]emVal{}
+		for i := 0; i < u.NumFields(); i++ {
+			f[u.Field(i).Name()] = e.zeroOf(u.Field(i).Type(), 1)
+		}
+		for i, el := range cl.Elts {
+			if kv, ok := el.(*ast.KeyValueExpr); ok {
+				if id, ok := kv.Key.(*ast.Ident); ok {
+					var ft types.Type
+					for j := 0; j < u.NumFields(); j++ {
+						if u.Field(j).Name() == id.Name {
+							ft = u.Field(j).Type()
+						}
+					}
+					f[id.Name] = one(kv.Value, ft)
+				}
+				continue
+			}
+			if i < u.NumFields() {
+				f[u.Field(i).Name()] = one(el, u.Field(i).Type())
+			}
+		}
+		return emVal{k: evStruct, flds: f}
+	}
+	return emVal{}
+}
+
+// elidedLit: `{a, b}` inside a table literal whose element type is et.
+func (e *emitter) elidedLit(s *emSt, info *types.Info, cl *ast.CompositeLit, et types.Type, bind map[types.Object]emVal, depth int) emVal {
+	if et == nil {
+		return emVal{}
+	}
+	if t := info.TypeOf(cl); t != nil {
+		return e.literalVal(s, info, cl, bind, depth)
+	}
+	return emVal{}
+}
+
+// pkgVal: the value a package-level variable is initialised with, when it is data (never assigned).
+func (e *emitter) pkgVal(v *types.Var, depth int) *emVal {
+	pv := e.pkgVars[v]
+	if pv == nil || pv.mutated || pv.busy {
+		return nil
+	}
+	if pv.val != nil {
+		if pv.val.k == evUnknown {
+			return nil
+		}
+		return pv.val
+	}
+	if !e.mentionsOpcode(v.Type(), 0) {
+		return nil
+	}
+	pv.busy = true
+	a := e.evalAlts(nil, pv.info, pv.init, nil, depth+1)
+	val := emVal{}
+	if len(a) == 1 {
+		val = a[0]
+	}
+	// the element assignments of the package's init functions, in source order
+	sort.Slice(pv.initWrites, func(i, j int) bool { return pv.initWrites[i].Pos() < pv.initWrites[j].Pos() })
+	for _, w := range pv.initWrites {
+		if val.k != evTable || !val.tbl.isMap {
+			val = emVal{}
+			break
+		}
+		ix := ast.Unparen(w.Lhs[0]).(*ast.IndexExpr)
+		ka := e.evalAlts(nil, pv.info, ix.Index, nil, depth+1)
+		va := e.evalAlts(nil, pv.info, w.Rhs[0], nil, depth+1)
+		if len(ka) != 1 || !ka[0].known() || len(va) != 1 {
+			val = emVal{}
+			break
+		}
+		nt := &emTable{isMap: true, zero: val.tbl.zero}
+		replaced := false
+		for j, k := range val.tbl.keys {
+			nt.keys = append(nt.keys, k)
+			if same, known := emSameVal(k, ka[0]); known && same {
+				nt.vals = append(nt.vals, va[0])
+				replaced = true
+			} else {
+				nt.vals = append(nt.vals, val.tbl.vals[j])
+			}
+		}
+		if !replaced {
+			nt.keys = append(nt.keys, ka[0])
+			nt.vals = append(nt.vals, va[0])
+		}
+		val = emVal{k: evTable, tbl: nt}
+	}
+	pv.busy = false
+	pv.val = &val
+	if val.k == evUnknown {
+		return nil
+	}
+	return pv.val
+}
+
+// evalPureCall: the alternatives a call of fn with these arguments returns (a tuple for several
+// results). The body is walked with the value domain only; whatever is not data is unknown.
+func (e *emitter) evalPureCall(fn *types.Func, args []emVal, depth int) []emVal {
+	di, ok := e.decls[fn]
+	if !ok {
+		return []emVal{{}}
+	}
+	return e.evalPureBody(fn.FullName(), di.info, di.fd.Type, di.fd.Body, args, depth)
+}
+
+// evalPureBody: the same for any function body (a declared function, a function literal that is
+// called where it is written).
+func (e *emitter) evalPureBody(name string, info *types.Info, ftype *ast.FuncType, body *ast.BlockStmt, args []emVal, depth int) []emVal {
+	unknown := []emVal{{}}
+	if depth > 5 || body == nil {
+		return unknown
+	}
+	var ks []string
+	for _, a := range args {
+		ks = append(ks, a.key())
+	}
+	mk := name + "(" + strings.Join(ks, ",") + ")"
+	if r, ok := e.pureMemo[mk]; ok {
+		if r == nil {
+			return unknown // recursion
+		}
+		return r
+	}
+	e.pureMemo[mk] = nil
+	st := newEmSt()
+	i := 0
+	for _, f := range ftype.Params.List {
+		for _, n := range f.Names {
+			if i < len(args) && args[i].known() {
+				st.bindRows([]types.Object{info.Defs[n]}, [][]emVal{{args[i]}})
+			}
+			i++
+		}
+		if len(f.Names) == 0 {
+			i++
+		}
+	}
+	nres := 0
+	var named []types.Object
+	if ftype.Results != nil {
+		for _, f := range ftype.Results.List {
+			if len(f.Names) == 0 {
+				nres++
+			}
+			for _, n := range f.Names {
+				nres++
+				named = append(named, info.Defs[n])
+			}
+		}
+	}
+	var out []emVal
+	w := &Walker[*emSt]{
+		Clone:    emClone,
+		MaxPaths: 4000,
+		IsPanic:  func(s ast.Stmt) bool { return e.diverges(info, s) },
+		OnStmt: func(s *emSt, stmt ast.Stmt) (*emSt, bool) {
+			e.bindValues(s, info, stmt)
+			return s, true
+		},
+		OnCond: func(s *emSt, cond ast.Expr, taken bool) (*emSt, bool) {
+			return s, e.filterCond(s, info, cond, taken)
+		},
+		OnCase: func(s *emSt, sw *ast.SwitchStmt, vals, others []ast.Expr) (*emSt, bool) {
+			return s, e.caseFeasible(s, info, sw.Tag, vals, others)
+		},
+		OnDefer: func(s *emSt, d *ast.DeferStmt) (*emSt, bool) { return s, true },
+		OnRange: func(s *emSt, r *ast.RangeStmt) (*emSt, bool) {
+			// a loop over a table written as data: the key / element of a generic iteration is any of
+			// its rows (a search loop `for _, row := range table { if row.key == x { return row.val } }`)
+			k, v := emObjOf(info, r.Key), emObjOf(info, r.Value)
+			s.unbind(k)
+			s.unbind(v)
+			a := e.evalAlts(s, info, r.X, nil, depth+1)
+			if len(a) == 1 && a[0].k == evTable && len(a[0].tbl.vals) > 0 {
+				var rows [][]emVal
+				for i, val := range a[0].tbl.vals {
+					key := emVal{k: evLit, lit: constant.MakeInt64(int64(i))}
+					if a[0].tbl.isMap && i < len(a[0].tbl.keys) {
+						key = a[0].tbl.keys[i]
+					}
+					rows = append(rows, []emVal{key, val})
+				}
+				s.bindRows([]types.Object{k, v}, rows)
+			}
+			return s, true
+		},
+		LoopSummary: func(loop ast.Stmt, before *emSt, ends []*emSt) (*emSt, bool) {
+			post := emClone(before)
+			e.forgetAssigned(post, info, loop)
+			return post, true
+		},
+	}
+	w.Exit = func(s *emSt, o outcome) {
+		if o.kind == cPanic {
+			return
+		}
+		var rows [][]emVal
+		switch {
+		case o.kind == cReturn && len(o.ret.Results) == nres && nres > 0:
+			rows = e.evalRows(s, info, o.ret.Results)
+		case o.kind == cReturn && len(o.ret.Results) == 1 && nres > 1:
+			// return f(x) forwarding a tuple
+			for _, a := range e.evalAlts(s, info, o.ret.Results[0], nil, depth+1) {
+				if a.k == evTuple && len(a.tup) == nres {
+					rows = append(rows, a.tup)
+				} else {
+					rows = append(rows, make([]emVal, nres))
+				}
+			}
+		case len(named) == nres && nres > 0:
+			// named results, bare return / falling off the end
+			var lists [][]emVal
+			for _, o := range named {
+				vs := s.valsOf(o)
+				if vs == nil {
+					vs = []emVal{{}}
+				}
+				lists = append(lists, vs)
+			}
+			rows = emProduct(lists, 64)
+		default:
+			return
+		}
+		if rows == nil {
+			rows = [][]emVal{make([]emVal, nres)}
+		}
+		for _, r := range rows {
+			if nres == 1 {
+				out = append(out, r[0])
+			} else {
+				out = append(out, emVal{k: evTuple, tup: r})
+			}
+		}
+	}
+	w.Run(body, st)
+	if w.Overflow || len(out) == 0 {
+		out = unknown
+	}
+	out = emDedupVals(out)
+	if len(out) > 128 {
+		out = unknown
+	}
+	e.pureMemo[mk] = out
+	return out
+}
+
+// evalRows: joint alternatives of several expressions. Plain identifiers of one group keep their rows.
+func (e *emitter) evalRows(s *emSt, info *types.Info, exprs []ast.Expr) [][]emVal {
+	gi := -1
+	cols := make([]int, len(exprs))
+	same := true
+	for i, x := range exprs {
+		id, ok := ast.Unparen(x).(*ast.Ident)
+		if !ok {
+			same = false
+			break
+		}
+		obj := info.Uses[id]
+		g, c := s.groupOf(obj)
+		if g < 0 || (gi >= 0 && g != gi) {
+			same = false
+			break
+		}
+		gi, cols[i] = g, c
+	}
+	if same && gi >= 0 {
+		var rows [][]emVal
+		for _, r := range s.groups[gi].rows {
+			row := make([]emVal, len(exprs))
+			for i := range exprs {
+				row[i] = r[cols[i]]
+			}
+			rows = append(rows, row)
+		}
+		return rows
+	}
+	// expressions over the columns of ONE group are evaluated row by row, anything else independently
+	if g := e.soleGroup(s, info, exprs...); g != nil {
+		var rows [][]emVal
+		for _, r := range g.rows {
+			bind := map[types.Object]emVal{}
+			for o, c := range g.cols {
+				bind[o] = r[c]
+			}
+			var lists [][]emVal
+			for _, x := range exprs {
+				lists = append(lists, e.evalAlts(s, info, x, bind, 0))
+			}
+			p := emProduct(lists, 64)
+			if p == nil {
+				return nil
+			}
+			rows = append(rows, p...)
+		}
+		return rows
+	}
+	var lists [][]emVal
+	for _, x := range exprs {
+		lists = append(lists, e.evalAlts(s, info, x, nil, 0))
+	}
+	return emProduct(lists, 128)
+}
+
+// soleGroup: the group whose columns the expressions mention, when there is exactly one.
+func (e *emitter) soleGroup(s *emSt, info *types.Info, exprs ...ast.Expr) *emGroup {
+	var g *emGroup
+	many := false
+	for _, x := range exprs {
+		if x == nil {
+			continue
+		}
+		ast.Inspect(x, func(n ast.Node) bool {
+			if _, ok := n.(*ast.FuncLit); ok {
+				return false
+			}
+			if id, ok := n.(*ast.Ident); ok {
+				if obj := info.Uses[id]; obj != nil {
+					if gi, _ := s.groupOf(obj); gi >= 0 {
+						if g != nil && g != s.groups[gi] {
+							many = true
+						}
+						g = s.groups[gi]
+					}
+				}
+			}
+			return true
+		})
+	}
+	if many {
+		return nil
+	}
+	return g
+}
+
+// filterCond: is the decision `cond == taken` feasible under the tracked values; the rows of the
+// group the condition talks about are narrowed to those that agree.
+func (e *emitter) filterCond(s *emSt, info *types.Info, cond ast.Expr, taken bool) bool {
+	agrees := func(alts []emVal) bool {
+		for _, a := range alts {
+			b, ok := a.boolVal()
+			if !ok || b == taken {
+				return true
+			}
+		}
+		return false
+	}
+	g := e.soleGroup(s, info, cond)
+	if g == nil {
+		return agrees(e.evalAlts(s, info, cond, nil, 0))
+	}
+	var keep [][]emVal
+	for _, r := range g.rows {
+		bind := map[types.Object]emVal{}
+		for o, c := range g.cols {
+			bind[o] = r[c]
+		}
+		if agrees(e.evalAlts(s, info, cond, bind, 0)) {
+			keep = append(keep, r)
+		}
+	}
+	if len(keep) == 0 {
+		return false
+	}
+	if len(keep) != len(g.rows) {
+		for i := range s.groups {
+			if s.groups[i] == g {
+				s.groups[i] = &emGroup{cols: g.cols, rows: keep}
+			}
+		}
+	}
+	return true
+}
+
+// caseFeasible: can the switch over tag enter the clause with these values (vals == nil: default).
+func (e *emitter) caseFeasible(s *emSt, info *types.Info, tag ast.Expr, vals, others []ast.Expr) bool {
+	if tag == nil {
+		return true
+	}
+	consts := func(l []ast.Expr) ([]emVal, bool) {
+		var out []emVal
+		for _, x := range l {
+			a := e.evalAlts(s, info, x, nil, 0)
+			if len(a) != 1 || a[0].cval() == nil {
+				return nil, false
+			}
+			out = append(out, a[0])
+		}
+		return out, true
+	}
+	list := vals
+	if vals == nil {
+		list = others
+	}
+	cs, ok := consts(list)
+	if !ok {
+		return true
+	}
+	// enters(v): 1 yes, 0 no, -1 unknown
+	enters := func(v emVal) int {
+		if v.cval() == nil {
+			return -1
+		}
+		hit := false
+		for _, c := range cs {
+			if same, known := emSameVal(v, c); known && same {
+				hit = true
+			} else if !known {
+				return -1
+			}
+		}
+		if (vals != nil) == hit {
+			return 1
+		}
+		return 0
+	}
+	g := e.soleGroup(s, info, tag)
+	if g == nil {
+		for _, a := range e.evalAlts(s, info, tag, nil, 0) {
+			if enters(a) != 0 {
+				return true
+			}
+		}
+		return false
+	}
+	var keep [][]emVal
+	for _, r := range g.rows {
+		bind := map[types.Object]emVal{}
+		for o, c := range g.cols {
+			bind[o] = r[c]
+		}
+		ok := false
+		for _, a := range e.evalAlts(s, info, tag, bind, 0) {
+			if enters(a) != 0 {
+				ok = true
+			}
+		}
+		if ok {
+			keep = append(keep, r)
+		}
+	}
+	if len(keep) == 0 {
+		return false
+	}
+	if len(keep) != len(g.rows) {
+		for i := range s.groups {
+			if s.groups[i] == g {
+				s.groups[i] = &emGroup{cols: g.cols, rows: keep}
+			}
+		}
+	}
+	return true
+}
+
+// forgetAssigned: after a loop the values of everything its body assigns are unknown.
+func (e *emitter) forgetAssigned(s *emSt, info *types.Info, n ast.Node) {
+	forget := func(obj types.Object) {
+		if obj == nil {
+			return
+		}
+		s.unbind(obj)
+		delete(s.env, obj)
+		delete(s.ints, obj)
+		delete(s.conds, obj)
+		delete(s.insts, obj)
+		delete(s.funcs, obj)
+	}
+	ast.Inspect(n, func(m ast.Node) bool {
+		switch x := m.(type) {
+		case *ast.FuncLit:
+			return false
+		case *ast.AssignStmt:
+			for _, l := range x.Lhs {
+				for {
+					if ix, ok := ast.Unparen(l).(*ast.IndexExpr); ok {
+						l = ix.X
+						continue
+					}
+					break
+				}
+				if id, ok := ast.Unparen(l).(*ast.Ident); ok {
+					obj := info.Uses[id]
+					if obj == nil {
+						obj = info.Defs[id]
+					}
+					forget(obj)
+				}
+			}
+		case *ast.IncDecStmt:
+			if id, ok := ast.Unparen(x.X).(*ast.Ident); ok {
+				forget(info.Uses[id])
+			}
+		}
+		return true
+	})
+}
+
+func emObjOf(info *types.Info, x ast.Expr) types.Object {
+	id, ok := ast.Unparen(x).(*ast.Ident)
+	if !ok || id.Name == "_" {
+		return nil
+	}
+	if o := info.Defs[id]; o != nil {
+		return o
+	}
+	return info.Uses[id]
+}
+
+// bindValues applies the value-domain effect of a simple statement.
+func (e *emitter) bindValues(s *emSt, info *types.Info, stmt ast.Stmt) {
+	assign := func(lhs []ast.Expr, rhs []ast.Expr) {
+		switch {
+		case len(lhs) == len(rhs):
+			type pend struct {
+				obj   types.Object
+				alts  []emVal
+				alias types.Object
+				track bool
+			}
+			var ps []pend
+			for i, l := range lhs {
+				if ix, ok := ast.Unparen(l).(*ast.IndexExpr); ok {
+					// tbl[k] = v on a tracked table
+					tobj := emObjOf(info, ix.X)
+					if tobj == nil {
+						continue
+					}
+					tv := s.valsOf(tobj)
+					ka := e.evalAlts(s, info, ix.Index, nil, 0)
+					va := e.evalAlts(s, info, rhs[i], nil, 0)
+					if len(tv) == 1 && tv[0].k == evTable && tv[0].tbl.isMap && len(ka) == 1 && ka[0].known() && len(va) == 1 {
+						old := tv[0].tbl
+						nt := &emTable{isMap: true, zero: old.zero}
+						replaced := false
+						for j, k := range old.keys {
+							if same, known := emSameVal(k, ka[0]); known && same {
+								nt.keys = append(nt.keys, k)
+								nt.vals = append(nt.vals, va[0])
+								replaced = true
+							} else {
+								nt.keys = append(nt.keys, k)
+								nt.vals = append(nt.vals, old.vals[j])
+							}
+						}
+						if !replaced {
+							nt.keys = append(nt.keys, ka[0])
+							nt.vals = append(nt.vals, va[0])
+						}
+						ps = append(ps, pend{obj: tobj, alts: []emVal{{k: evTable, tbl: nt}}, track: true})
+					} else if tv != nil {
+						ps = append(ps, pend{obj: tobj})
+					}
+					continue
+				}
+				obj := emObjOf(info, l)
+				if obj == nil {
+					continue
+				}
+				p := pend{obj: obj}
+				if ro := emObjOf(info, rhs[i]); ro != nil {
+					if gi, _ := s.groupOf(ro); gi >= 0 {
+						p.alias = ro
+					}
+				}
+				p.alts = e.evalAlts(s, info, rhs[i], nil, 0)
+				allKnown := true
+				for _, a := range p.alts {
+					if !a.known() {
+						allKnown = false
+					}
+				}
+				p.track = allKnown || e.mentionsOpcode(obj.Type(), 0)
+				ps = append(ps, p)
+			}
+			for _, p := range ps {
+				switch {
+				case p.alias != nil && p.alias != p.obj:
+					s.aliasCol(p.obj, p.alias)
+				case p.alias != nil:
+				case p.track && len(p.alts) > 0:
+					var rows [][]emVal
+					for _, a := range p.alts {
+						rows = append(rows, []emVal{a})
+					}
+					s.bindRows([]types.Object{p.obj}, rows)
+				default:
+					s.unbind(p.obj)
+				}
+			}
+		case len(rhs) == 1 && len(lhs) > 1:
+			objs := make([]types.Object, len(lhs))
+			for i, l := range lhs {
+				objs[i] = emObjOf(info, l)
+			}
+			var rows [][]emVal
+			switch r := ast.Unparen(rhs[0]).(type) {
+			case *ast.IndexExpr:
+				if len(lhs) == 2 {
+					combos := emProduct([][]emVal{e.evalAlts(s, info, r.X, nil, 0), e.evalAlts(s, info, r.Index, nil, 0)}, 64)
+					for _, c := range combos {
+						rows = append(rows, e.lookup(c[0], c[1])...)
+					}
+				}
+			case *ast.CallExpr:
+				for _, a := range e.evalAlts(s, info, r, nil, 0) {
+					if a.k == evTuple && len(a.tup) == len(lhs) {
+						rows = append(rows, a.tup)
+					} else {
+						rows = append(rows, make([]emVal, len(lhs)))
+					}
+				}
+			}
+			if rows == nil {
+				for _, o := range objs {
+					s.unbind(o)
+				}
+				return
+			}
+			s.bindRows(objs, rows)
+		}
+	}
+	switch x := stmt.(type) {
+	case *ast.AssignStmt:
+		if x.Tok != token.ASSIGN && x.Tok != token.DEFINE {
+			for _, l := range x.Lhs {
+				s.unbind(emObjOf(info, l))
+			}
+			return
+		}
+		assign(x.Lhs, x.Rhs)
+	case *ast.DeclStmt:
+		gd, ok := x.Decl.(*ast.GenDecl)
+		if !ok || gd.Tok != token.VAR {
+			return
+		}
+		for _, sp := range gd.Specs {
+			vs, ok := sp.(*ast.ValueSpec)
+			if !ok {
+				continue
+			}
+			var lhs []ast.Expr
+			for _, n := range vs.Names {
+				lhs = append(lhs, n)
+			}
+			if len(vs.Values) == 0 {
+				// zero values
+				for _, n := range vs.Names {
+					obj := info.Defs[n]
+					if obj == nil {
+						continue
+					}
+					z := e.zeroOf(obj.Type(), 0)
+					if z.known() && (e.mentionsOpcode(obj.Type(), 0) || z.k == evLit) {
+						s.bindRows([]types.Object{obj}, [][]emVal{{z}})
+					} else {
+						s.unbind(obj)
+					}
+				}
+				continue
+			}
+			assign(lhs, vs.Values)
+		}
+	case *ast.IncDecStmt:
+		s.unbind(emObjOf(info, x.X))
+	}
+}
+
+// diverges: the statement never completes (panic, or a call of a function every path of which panics).
+func (e *emitter) diverges(info *types.Info, s ast.Stmt) bool {
+	return e.divergesDepth(info, s, 0)
+}
+
+func (e *emitter) divergesDepth(info *types.Info, s ast.Stmt, depth int) bool {
+	if IsPanicCall(info, s) {
+		return true
+	}
+	es, ok := s.(*ast.ExprStmt)
+	if !ok || depth > 3 {
+		return false
+	}
+	call, ok := es.X.(*ast.CallExpr)
+	if !ok {
+		return false
+	}
+	fn := CalleeOf(info, call)
+	if fn == nil {
+		return false
+	}
+	di, ok := e.decls[fn]
+	if !ok || len(di.fd.Body.List) == 0 {
+		return false
+	}
+	if v, ok := e.divMemo[fn]; ok {
+		return v
+	}
+	e.divMemo[fn] = false
+	hasRet := false
+	ast.Inspect(di.fd.Body, func(n ast.Node) bool {
+		switch n.(type) {
+		case *ast.ReturnStmt:
+			hasRet = true
+		case *ast.FuncLit:
+			return false
+		}
+		return true
+	})
+	r := !hasRet && e.divergesDepth(di.info, di.fd.Body.List[len(di.fd.Body.List)-1], depth+1)
+	e.divMemo[fn] = r
+	return r
 }
 
 // ---- emitter state ----
@@ -508,25 +2296,44 @@ func emAlwaysPanics(info *types.Info, decl map[*types.Func]*ast.FuncDecl, s ast.
 type emSt struct {
 	h        lin
 	reach    bool
-	recorded map[string][]lin // label key → heights of jumps seen before its emission
+	dead     bool                // the path cannot continue (a callee that never returns)
+	recorded map[string][]lin    // label key → heights of jumps seen before its emission
 	recTop   map[string][]string // label key → stack-top provenance of those jumps (parallel to recorded)
-	emitted  map[string]lin   // label key → height at emission
+	emitted  map[string]lin      // label key → height at emission
 	emitCnt  map[string]int
-	created  map[string]bool // labels created by mangleLabel in this function
+	created  map[string]bool // labels created by the name maker in this function
 	alias    map[string]string
 	ints     map[types.Object]lin
 	last     *lin // integer constant pushed by the last emitted instruction
 	tails    map[string]bool
 	nuFact   map[string]int
+	tags     map[string][]string // "in:"+tag → the constants the tag expression may hold, "out:"+tag → those it does not
 	caseKey  string
 	problems []string
-	stk      []string                // symbolic operand stack (entries pushed since function entry); "?" = unknown
-	opVars   map[types.Object]string // opcode-typed locals → constant currently held
-	world    int                     // 0 unforced, 1 = all results non-null, 2 = tail results null
+	stk      []string                      // symbolic operand stack (entries pushed since function entry); "?" = unknown
+	world    int                           // 0 unforced, 1 = all results non-null, 2 = tail results null
+	env      map[types.Object]string       // canonical text of parameters of inlined helpers, aliases of node paths, loop indices
+	groups   []*emGroup                    // tracked values (opcodes, flags, tables)
+	funcs    map[types.Object]*ast.FuncLit // locals holding a function literal
+	insts    map[types.Object]ast.Expr     // locals holding an instruction: the constructor call / literal
+	inst     map[*types.Func]int           // how many times a helper has been inlined on this path
+	depth    int                           // inlining depth
+	picks    map[string]int                // forks passed on this path (a helper ending in several ways): which way was taken
+	forkCnt  map[token.Pos]int
+	ret      [][]emVal                   // at the exit of an inlined helper: the alternatives of its results
+	callRes  map[*ast.CallExpr][][]emVal // results of the inlined calls made on this path
+	conds    map[types.Object]ast.Expr   // boolean locals / parameters: the condition they hold
+}
+
+func newEmSt() *emSt {
+	return &emSt{reach: true, recTop: map[string][]string{}, recorded: map[string][]lin{}, emitted: map[string]lin{}, emitCnt: map[string]int{}, created: map[string]bool{},
+		alias: map[string]string{}, ints: map[types.Object]lin{}, tails: map[string]bool{}, nuFact: map[string]int{}, tags: map[string][]string{},
+		env: map[types.Object]string{}, funcs: map[types.Object]*ast.FuncLit{}, insts: map[types.Object]ast.Expr{}, inst: map[*types.Func]int{},
+		picks: map[string]int{}, forkCnt: map[token.Pos]int{}, callRes: map[*ast.CallExpr][][]emVal{}, conds: map[types.Object]ast.Expr{}}
 }
 
 func emClone(s *emSt) *emSt {
-	n := &emSt{h: s.h.add(linC(0)), reach: s.reach, caseKey: s.caseKey}
+	n := &emSt{h: s.h.add(linC(0)), reach: s.reach, dead: s.dead, caseKey: s.caseKey, depth: s.depth}
 	n.recorded = map[string][]lin{}
 	for k, v := range s.recorded {
 		n.recorded[k] = append([]lin(nil), v...)
@@ -563,39 +2370,92 @@ func emClone(s *emSt) *emSt {
 	for k, v := range s.nuFact {
 		n.nuFact[k] = v
 	}
+	n.tags = map[string][]string{}
+	for k, v := range s.tags {
+		n.tags[k] = v
+	}
 	if s.last != nil {
 		l := *s.last
 		n.last = &l
 	}
 	n.problems = append([]string(nil), s.problems...)
-	n.opVars = map[types.Object]string{}
-	for k, v := range s.opVars {
-		n.opVars[k] = v
+	n.env = map[types.Object]string{}
+	for k, v := range s.env {
+		n.env[k] = v
+	}
+	n.groups = append([]*emGroup(nil), s.groups...)
+	n.funcs = map[types.Object]*ast.FuncLit{}
+	for k, v := range s.funcs {
+		n.funcs[k] = v
+	}
+	n.insts = map[types.Object]ast.Expr{}
+	for k, v := range s.insts {
+		n.insts[k] = v
+	}
+	n.inst = map[*types.Func]int{}
+	for k, v := range s.inst {
+		n.inst[k] = v
 	}
 	n.world = s.world
 	n.stk = append([]string(nil), s.stk...)
+	n.picks = map[string]int{}
+	for k, v := range s.picks {
+		n.picks[k] = v
+	}
+	n.forkCnt = map[token.Pos]int{}
+	for k, v := range s.forkCnt {
+		n.forkCnt[k] = v
+	}
+	n.callRes = map[*ast.CallExpr][][]emVal{}
+	for k, v := range s.callRes {
+		n.callRes[k] = v
+	}
+	n.ret = s.ret
+	n.conds = map[types.Object]ast.Expr{}
+	for k, v := range s.conds {
+		n.conds[k] = v
+	}
 	return n
 }
 
 type emitter struct {
-	c       *Ctx
-	info    *types.Info
-	vm      map[string]vmEffect
-	insert  *types.Func
-	ctors   map[*types.Func]bool // instruction constructors (first arg = opcode)
-	opcodeT types.Type
-	fns     map[*types.Func]*ast.FuncDecl
-	summ    map[*types.Func]*emSumm // computed summaries of leaf helpers (absent = convention by role)
-	role    map[*types.Func]emRole
+	c                          *Ctx
+	info                       *types.Info
+	vm                         map[string]vmEffect
+	inserts                    map[*types.Func]int  // the insert functions → index of their instruction parameter
+	ctors                      map[*types.Func]bool // instruction constructors (first arg = opcode)
+	opcodeT                    types.Type
+	instrT                     types.Type
+	fns                        map[*types.Func]*ast.FuncDecl
+	role                       map[*types.Func]emRole
 	exprDispatch, stmtDispatch *types.Func // the functions taking the AnalyzedExpression / AnalyzedStatement interface
-	inLoop  int
-	cur     *ast.FuncDecl
+	cur                        *ast.FuncDecl
+	curFn                      *types.Func
 	// tail symbols of the function being analysed: ν-symbols that were in tail position
 	// (last emission before an unconditional jump, a fall-through label or the exit).
 	// pass 1 collects them, pass 2 uses them.
-	tailSyms  map[string]bool
-	collect   bool
-	ctorOp    map[*types.Func]string // constructors with a fixed opcode in their body
+	tailSyms map[string]bool
+	collect  bool
+	ctorOp   map[*types.Func]string // constructors with a fixed opcode in their body
+	// program-wide lookups
+	decls    map[*types.Func]emDeclInfo
+	pkgVars  map[*types.Var]*emPkgVar
+	pureMemo map[string][]emVal
+	divMemo  map[*types.Func]bool
+	lnames   map[types.Object]string // display names of locals (disambiguated inside their function)
+	owner    map[types.Object]*ast.FuncDecl
+	inlStack []*types.Func
+	nodeTs   []types.Type       // the node types: expression / statement interface, block, function definition
+	nodeIs   []*types.Interface // the node interfaces
+	demoted  map[*types.Func]bool
+	byDriver map[*types.Func]bool
+	overflow bool
+	// forks: a helper that ends in several observable ways at a call site splits the caller's path. The
+	// walk of a function is repeated, each run taking one combination of ways (want: fork → way, 0 when
+	// absent); a run reports the paths that took exactly its combination.
+	want     map[string]int
+	pending  []map[string]int
+	seenWant map[string]bool
 }
 
 // w1: every sub-expression yields one value. w0: tail results yield nothing (null-typed
@@ -680,8 +2540,242 @@ func (e *emitter) markTails(s *emSt) {
 	}
 }
 
-func (e *emitter) labelKey(s *emSt, x ast.Expr) string {
-	k := exprStr(ast.Unparen(x))
+// ---- canonical texts ----
+//
+// Symbols (ν(x), n(list)), label keys and remembered decisions are keyed by the CANONICAL text of an
+// expression over the node being compiled: a local that merely names a path of the node
+// (`arguments := node.Arguments.List`, `node := expr.(T)`), a parameter of an inlined helper, the
+// element / index variable of a loop over a list and a side-effect free accessor method
+// (`node.HasElse()`) are replaced by what they stand for, so that the same thing has the same key
+// however the code spells it.
+
+func (e *emitter) localName(s *emSt, v *types.Var) string {
+	if n, ok := e.lnames[v]; ok {
+		fd := e.owner[v]
+		if fd != nil && fd != e.cur {
+			fn, _ := e.info.Defs[fd.Name].(*types.Func)
+			k := 0
+			if s != nil && fn != nil {
+				k = s.inst[fn]
+			}
+			if k > 1 {
+				return fmt.Sprintf("%s@%s#%d", n, fd.Name.Name, k)
+			}
+			return n + "@" + fd.Name.Name
+		}
+		return n
+	}
+	return v.Name()
+}
+
+// indexLocals names the locals of a function: the name, made unique by an ordinal when the function
+// declares several objects of that name.
+func (e *emitter) indexLocals(fd *ast.FuncDecl) {
+	byName := map[string][]*types.Var{}
+	ast.Inspect(fd, func(n ast.Node) bool {
+		if id, ok := n.(*ast.Ident); ok {
+			if v, ok := e.info.Defs[id].(*types.Var); ok && !v.IsField() {
+				byName[id.Name] = append(byName[id.Name], v)
+				e.owner[v] = fd
+			}
+		}
+		return true
+	})
+	for name, vs := range byName {
+		sort.Slice(vs, func(i, j int) bool { return vs[i].Pos() < vs[j].Pos() })
+		for i, v := range vs {
+			if i == 0 {
+				e.lnames[v] = name
+			} else {
+				e.lnames[v] = fmt.Sprintf("%s·%d", name, i+1)
+			}
+		}
+	}
+}
+
+func (e *emitter) canon(s *emSt, info *types.Info, x ast.Expr) string {
+	if x == nil {
+		return ""
+	}
+	switch t := ast.Unparen(x).(type) {
+	case *ast.Ident:
+		obj := info.Uses[t]
+		if obj == nil {
+			obj = info.Defs[t]
+		}
+		if obj != nil && s != nil {
+			if txt, ok := s.env[obj]; ok {
+				return txt
+			}
+		}
+		if v, ok := obj.(*types.Var); ok && !v.IsField() {
+			return e.localName(s, v)
+		}
+		return t.Name
+	case *ast.SelectorExpr:
+		if id, ok := t.X.(*ast.Ident); ok {
+			if _, isPkg := info.Uses[id].(*types.PkgName); isPkg {
+				return id.Name + "." + t.Sel.Name
+			}
+		}
+		return e.canon(s, info, t.X) + "." + t.Sel.Name
+	case *ast.TypeAssertExpr:
+		return e.canon(s, info, t.X)
+	case *ast.StarExpr:
+		return e.canon(s, info, t.X)
+	case *ast.IndexExpr:
+		return e.canon(s, info, t.X) + "[" + e.canon(s, info, t.Index) + "]"
+	case *ast.CallExpr:
+		if s != nil {
+			if inner, inf, neg, restore := e.accessor(s, info, t); inner != nil {
+				txt := e.canon(s, inf, inner)
+				restore()
+				if _, simple := ast.Unparen(inner).(*ast.BinaryExpr); simple || neg {
+					txt = "(" + txt + ")"
+				}
+				if neg {
+					txt = "!" + txt
+				}
+				return txt
+			}
+		}
+		var args []string
+		for _, a := range t.Args {
+			args = append(args, e.canon(s, info, a))
+		}
+		if info.Types[t.Fun].IsType() {
+			return exprStr(t.Fun) + "(" + strings.Join(args, ", ") + ")"
+		}
+		return e.canon(s, info, t.Fun) + "(" + strings.Join(args, ", ") + ")"
+	case *ast.BinaryExpr:
+		return e.canon(s, info, t.X) + " " + t.Op.String() + " " + e.canon(s, info, t.Y)
+	case *ast.UnaryExpr:
+		return t.Op.String() + e.canon(s, info, t.X)
+	}
+	return exprStr(x)
+}
+
+// accessor: call is a call of a side-effect free accessor — a function whose body is `return E`
+// (or `if C { return <bool> }; return <!bool>`) with E free of calls. Returns E (in the callee's
+// file context, with the callee's receiver and parameters bound to the canonical texts of the
+// actual ones until restore is called); neg: the call means !E.
+func (e *emitter) accessor(s *emSt, info *types.Info, call *ast.CallExpr) (inner ast.Expr, inf *types.Info, neg bool, restore func()) {
+	fn := CalleeOf(info, call)
+	if fn == nil {
+		return nil, nil, false, nil
+	}
+	di, ok := e.decls[fn]
+	if !ok {
+		return nil, nil, false, nil
+	}
+	body := di.fd.Body.List
+	callFree := func(x ast.Expr) bool {
+		ok := true
+		ast.Inspect(x, func(n ast.Node) bool {
+			switch c := n.(type) {
+			case *ast.CallExpr:
+				if id, isId := ast.Unparen(c.Fun).(*ast.Ident); isId {
+					if b, isB := di.info.Uses[id].(*types.Builtin); isB && (b.Name() == "len" || b.Name() == "cap") {
+						return true
+					}
+				}
+				if !di.info.Types[c.Fun].IsType() {
+					ok = false
+				}
+			case *ast.FuncLit:
+				ok = false
+			}
+			return ok
+		})
+		return ok
+	}
+	boolLit := func(x ast.Expr) (bool, bool) {
+		if tv, ok := di.info.Types[x]; ok && tv.Value != nil && tv.Value.Kind() == constant.Bool {
+			return constant.BoolVal(tv.Value), true
+		}
+		return false, false
+	}
+	switch {
+	case len(body) == 1:
+		r, ok := body[0].(*ast.ReturnStmt)
+		if !ok || len(r.Results) != 1 || !callFree(r.Results[0]) {
+			return nil, nil, false, nil
+		}
+		if tv, ok := di.info.Types[r.Results[0]]; ok && tv.Value != nil {
+			return nil, nil, false, nil // constant accessors (Kind()) keep their spelling
+		}
+		inner = r.Results[0]
+	case len(body) == 2:
+		i, ok1 := body[0].(*ast.IfStmt)
+		r2, ok2 := body[1].(*ast.ReturnStmt)
+		if !ok1 || !ok2 || i.Init != nil || i.Else != nil || len(i.Body.List) != 1 || len(r2.Results) != 1 || !callFree(i.Cond) {
+			return nil, nil, false, nil
+		}
+		r1, ok := i.Body.List[0].(*ast.ReturnStmt)
+		if !ok || len(r1.Results) != 1 {
+			return nil, nil, false, nil
+		}
+		b1, okb1 := boolLit(r1.Results[0])
+		b2, okb2 := boolLit(r2.Results[0])
+		if !okb1 || !okb2 || b1 == b2 {
+			return nil, nil, false, nil
+		}
+		inner, neg = i.Cond, !b1
+	default:
+		return nil, nil, false, nil
+	}
+	// bind the receiver and the parameters
+	type saved struct {
+		obj types.Object
+		txt string
+		had bool
+	}
+	var old []saved
+	set := func(obj types.Object, txt string) {
+		if obj == nil {
+			return
+		}
+		prev, had := s.env[obj]
+		old = append(old, saved{obj, prev, had})
+		s.env[obj] = txt
+	}
+	var texts []string
+	for _, a := range call.Args {
+		texts = append(texts, e.canon(s, info, a))
+	}
+	recvTxt := ""
+	if sel, ok := ast.Unparen(call.Fun).(*ast.SelectorExpr); ok {
+		recvTxt = e.canon(s, info, sel.X)
+	}
+	if di.fd.Recv != nil && len(di.fd.Recv.List) > 0 && len(di.fd.Recv.List[0].Names) > 0 {
+		set(di.info.Defs[di.fd.Recv.List[0].Names[0]], recvTxt)
+	}
+	i := 0
+	for _, f := range di.fd.Type.Params.List {
+		for _, n := range f.Names {
+			if i < len(texts) {
+				set(di.info.Defs[n], texts[i])
+			}
+			i++
+		}
+		if len(f.Names) == 0 {
+			i++
+		}
+	}
+	restore = func() {
+		for j := len(old) - 1; j >= 0; j-- {
+			if old[j].had {
+				s.env[old[j].obj] = old[j].txt
+			} else {
+				delete(s.env, old[j].obj)
+			}
+		}
+	}
+	return inner, di.info, neg, restore
+}
+
+func (e *emitter) labelKey(s *emSt, info *types.Info, x ast.Expr) string {
+	k := e.canon(s, info, x)
 	if a, ok := s.alias[k]; ok {
 		return a
 	}
@@ -689,31 +2783,39 @@ func (e *emitter) labelKey(s *emSt, x ast.Expr) string {
 }
 
 // intOf evaluates an integer expression to a linear form over n(list) symbols.
-func (e *emitter) intOf(s *emSt, x ast.Expr) (lin, bool) {
+func (e *emitter) intOf(s *emSt, info *types.Info, x ast.Expr) (lin, bool) {
 	x = ast.Unparen(x)
-	if tv, ok := e.info.Types[x]; ok && tv.Value != nil && tv.Value.Kind() == constant.Int {
+	if tv, ok := info.Types[x]; ok && tv.Value != nil && tv.Value.Kind() == constant.Int {
 		n, _ := constant.Int64Val(tv.Value)
 		return linC(int(n)), true
 	}
 	switch t := x.(type) {
 	case *ast.Ident:
-		if v, ok := s.ints[e.info.Uses[t]]; ok {
+		if v, ok := s.ints[info.Uses[t]]; ok {
 			return v, true
 		}
 	case *ast.CallExpr:
-		if e.info.Types[t.Fun].IsType() && len(t.Args) == 1 {
-			return e.intOf(s, t.Args[0])
+		if info.Types[t.Fun].IsType() && len(t.Args) == 1 {
+			return e.intOf(s, info, t.Args[0])
 		}
 		if id, ok := t.Fun.(*ast.Ident); ok && id.Name == "len" && len(t.Args) == 1 {
-			return linS("n(" + exprStr(t.Args[0]) + ")"), true
+			return linS("n(" + e.canon(s, info, t.Args[0]) + ")"), true
 		}
 		// value.NewValueInt(x)
-		if fn := CalleeOf(e.info, t); fn != nil && fn.Name() == "NewValueInt" && len(t.Args) == 1 {
-			return e.intOf(s, t.Args[0])
+		if fn := CalleeOf(info, t); fn != nil && fn.Name() == "NewValueInt" && len(t.Args) == 1 {
+			return e.intOf(s, info, t.Args[0])
+		}
+		// an accessor: node.ArgCount()
+		if inner, inf, neg, restore := e.accessor(s, info, t); inner != nil {
+			v, ok := e.intOf(s, inf, inner)
+			restore()
+			if ok && !neg {
+				return v, true
+			}
 		}
 	case *ast.BinaryExpr:
-		a, ok1 := e.intOf(s, t.X)
-		b, ok2 := e.intOf(s, t.Y)
+		a, ok1 := e.intOf(s, info, t.X)
+		b, ok2 := e.intOf(s, info, t.Y)
 		if ok1 && ok2 {
 			switch t.Op {
 			case token.ADD:
@@ -723,15 +2825,13 @@ func (e *emitter) intOf(s *emSt, x ast.Expr) (lin, bool) {
 			}
 		}
 	case *ast.StarExpr:
-		return e.intOf(s, t.X)
+		return e.intOf(s, info, t.X)
 	}
 	return lin{}, false
 }
 
-func (e *emitter) nu(s *emSt, arg ast.Expr) lin {
-	txt := exprStr(ast.Unparen(arg))
-	txt = strings.TrimPrefix(txt, "*")
-	sym := "ν(" + txt + ")"
+func (e *emitter) nu(s *emSt, info *types.Info, arg ast.Expr) lin {
+	sym := "ν(" + e.canon(s, info, arg) + ")"
 	if v, ok := s.nuFact[sym]; ok {
 		return linC(v)
 	}
@@ -739,56 +2839,243 @@ func (e *emitter) nu(s *emSt, arg ast.Expr) lin {
 }
 
 func (e *emitter) problem(s *emSt, pos token.Pos, format string, a ...any) {
-	s.problems = append(s.problems, fmt.Sprintf("%s: ", e.c.Pos(pos))+fmt.Sprintf(format, a...))
+	p := fmt.Sprintf("%s: ", e.c.Pos(pos)) + fmt.Sprintf(format, a...)
+	for _, q := range s.problems {
+		if q == p {
+			return
+		}
+	}
+	s.problems = append(s.problems, p)
 }
 
-// emit applies one inserted instruction.
-func (e *emitter) emit(s *emSt, call *ast.CallExpr, ctor *ast.CallExpr) {
-	// the opcode: a constant argument, a local opcode variable (tracked per path), or fixed by the constructor
-	var ops []string
-	if fixed, ok := e.ctorOp[CalleeOf(e.info, ctor)]; ok {
-		ops = []string{fixed}
-	} else if len(ctor.Args) > 0 {
-		if k := ConstOf(e.info, ctor.Args[0]); k != nil {
-			ops = []string{k.Name()}
-		} else if id, ok := ast.Unparen(ctor.Args[0]).(*ast.Ident); ok {
-			if v, ok := s.opVars[e.info.Uses[id]]; ok {
-				ops = []string{v}
+// resultSym: what a call instruction leaves — the value of the expression the analysed function
+// compiles (ν of its node), nothing in a function that does not compile an expression (a call made
+// for its effect: the callee's own frame obligation says it returns bare).
+func (e *emitter) resultSym() lin {
+	r := e.role[e.curFn]
+	if r != emRExprLike && e.curFn != e.exprDispatch {
+		return linC(0)
+	}
+	i, k := e.nodeParamIndex(e.curFn), 0
+	for _, f := range e.cur.Type.Params.List {
+		for _, n := range f.Names {
+			if k == i {
+				return linS("ν(" + n.Name + ")")
+			}
+			k++
+		}
+		if len(f.Names) == 0 {
+			k++
+		}
+	}
+	return linC(0)
+}
+
+// problems that only say "decided at the call sites" (they make a function a piece that is analysed inline)
+const emCallbackMark = "[at call sites] "
+
+var emSpecialOps = map[string]bool{"Opcode_Label": true, "Opcode_Jump": true, "Opcode_JumpIfFalse": true, "Opcode_Return": true, "Opcode_Throw": true,
+	"Opcode_SetTryLabel": true, "Opcode_Call_Imm": true, "Opcode_Spawn": true, "Opcode_Call_Val": true, "Opcode_HostCall": true}
+
+// emInstr: an instruction as the emitter writes it: a constructor call (opcode first unless the
+// constructor fixes it, operands after it) or a composite literal of an instruction type (the field of
+// opcode type, the other fields in declaration order, arrays spread).
+type emInstr struct {
+	src    ast.Expr
+	fixed  string     // the opcode when the constructor fixes it
+	opExpr ast.Expr   // else the expression giving the opcode
+	args   []ast.Expr // the operands
+}
+
+func (ins *emInstr) arg(i int) ast.Expr {
+	if i >= 1 && i-1 < len(ins.args) {
+		return ins.args[i-1]
+	}
+	return nil
+}
+
+// isInstrLit: a composite literal of a struct type that is an instruction.
+func (e *emitter) isInstrLit(info *types.Info, x ast.Expr) *ast.CompositeLit {
+	cl, ok := ast.Unparen(x).(*ast.CompositeLit)
+	if !ok {
+		return nil
+	}
+	t := info.TypeOf(cl)
+	if t == nil {
+		return nil
+	}
+	iface, _ := e.instrT.Underlying().(*types.Interface)
+	if _, isStruct := t.Underlying().(*types.Struct); !isStruct || iface == nil || !types.Implements(t, iface) {
+		return nil
+	}
+	return cl
+}
+
+func (e *emitter) instrOfLit(info *types.Info, cl *ast.CompositeLit) *emInstr {
+	st := info.TypeOf(cl).Underlying().(*types.Struct)
+	vals := make([]ast.Expr, st.NumFields())
+	for i, el := range cl.Elts {
+		if kv, ok := el.(*ast.KeyValueExpr); ok {
+			if id, ok := kv.Key.(*ast.Ident); ok {
+				for j := 0; j < st.NumFields(); j++ {
+					if st.Field(j).Name() == id.Name {
+						vals[j] = kv.Value
+					}
+				}
+			}
+			continue
+		}
+		if i < len(vals) {
+			vals[i] = el
+		}
+	}
+	ins := &emInstr{src: cl}
+	for j := 0; j < st.NumFields(); j++ {
+		v := vals[j]
+		if types.Identical(st.Field(j).Type(), e.opcodeT) {
+			ins.opExpr = v
+			continue
+		}
+		if v == nil {
+			continue
+		}
+		if inner, ok := ast.Unparen(v).(*ast.CompositeLit); ok {
+			if _, isArr := info.TypeOf(inner).Underlying().(*types.Array); isArr {
+				for _, el := range inner.Elts {
+					if kv, ok := el.(*ast.KeyValueExpr); ok {
+						el = kv.Value
+					}
+					ins.args = append(ins.args, el)
+				}
+				continue
+			}
+		}
+		ins.args = append(ins.args, v)
+	}
+	return ins
+}
+
+func (e *emitter) instrOfCall(info *types.Info, cc *ast.CallExpr) *emInstr {
+	ins := &emInstr{src: cc}
+	if fixed, ok := e.ctorOp[CalleeOf(info, cc)]; ok {
+		ins.fixed = fixed
+		ins.args = cc.Args
+		return ins
+	}
+	if len(cc.Args) > 0 {
+		ins.opExpr = cc.Args[0]
+		ins.args = cc.Args[1:]
+	}
+	return ins
+}
+
+// opcodesOf: the opcode(s) of the instruction a constructor call builds: fixed by the constructor, or
+// the value of its opcode argument. sym != "": the opcode is a parameter of the function under analysis.
+func (e *emitter) opcodesOf(s *emSt, info *types.Info, ins *emInstr) (ops []string, sym string, ok bool) {
+	if ins.fixed != "" {
+		return []string{ins.fixed}, "", true
+	}
+	if ins.opExpr == nil {
+		return nil, "", false
+	}
+	alts := e.evalAlts(s, info, ins.opExpr, nil, 0)
+	seen := map[string]bool{}
+	for _, a := range alts {
+		if a.k != evConst || !types.Identical(a.c.Type(), e.opcodeT) {
+			// a parameter of the analysed function itself: symbolic
+			if obj := emObjOf(info, ins.opExpr); obj != nil && s.depth == 0 {
+				if v, isVar := obj.(*types.Var); isVar && e.isParamOf(v, e.cur) {
+					return nil, v.Name(), true
+				}
+			}
+			return nil, "", false
+		}
+		if !seen[a.c.Name()] {
+			seen[a.c.Name()] = true
+			ops = append(ops, a.c.Name())
+		}
+	}
+	sort.Strings(ops)
+	return ops, "", len(ops) > 0
+}
+
+func (e *emitter) isParamOf(v *types.Var, fd *ast.FuncDecl) bool {
+	for _, f := range fd.Type.Params.List {
+		for _, n := range f.Names {
+			if e.info.Defs[n] == v {
+				return true
 			}
 		}
 	}
-	if len(ops) == 0 {
-		e.problem(s, call.Pos(), "cannot determine the opcode of the inserted instruction `%s`", exprStr(ctor))
+	return false
+}
+
+// emit applies one inserted instruction.
+func (e *emitter) emit(s *emSt, info *types.Info, call *ast.CallExpr, ctor *emInstr) {
+	ops, sym, ok := e.opcodesOf(s, info, ctor)
+	if !ok {
+		e.problem(s, call.Pos(), "cannot determine the opcode of the inserted instruction `%s`", exprStr(ctor.src))
 		return
 	}
-	effs := []lin{e.opEffect(s, ops[0], call, ctor, false)}
+	if sym != "" {
+		// the effect of the helper is that of the opcode it is handed
+		s.last = nil
+		if s.reach {
+			s.h = s.h.add(linS("δ(" + sym + ")"))
+			s.stk = append(s.stk, "?")
+		}
+		return
+	}
+	if len(ops) > 1 {
+		// the opcode is one of several: plain instructions with one and the same effect are one case,
+		// otherwise the path splits per opcode
+		same := true
+		for i, op := range ops {
+			eff, ok := e.vm[op]
+			if emSpecialOps[op] || !ok || !eff.hasCase || (i > 0 && eff.delta != e.vm[ops[0]].delta) {
+				same = false
+			}
+		}
+		if !same {
+			key, pick, ok := e.fork(s, emNonZero(s.picks), call.Pos(), len(ops))
+			if !ok {
+				s.dead = true
+				return
+			}
+			s.picks[key] = pick
+			s.forkCnt[call.Pos()]++
+			ops = []string{ops[pick]}
+			// the variable holding the opcode holds this one on the rest of the path
+			if obj := emObjOf(info, ctor.opExpr); obj != nil && ctor.opExpr != nil {
+				if gi, col := s.groupOf(obj); gi >= 0 {
+					g := s.groups[gi]
+					var keep [][]emVal
+					for _, r := range g.rows {
+						if r[col].k != evConst || r[col].c.Name() == ops[0] {
+							keep = append(keep, r)
+						}
+					}
+					s.groups[gi] = &emGroup{cols: g.cols, rows: keep}
+				}
+			}
+		}
+	}
+	eff := e.opEffect(s, info, ops[0], call, ctor)
 	if !s.reach {
 		return
 	}
-	s.h = s.h.add(effs[0])
+	s.h = s.h.add(eff)
 }
 
 // opEffect returns the height effect of op and applies control effects
-// (labels, jumps, reachability) to s. dry=true for variable opcodes (no
-// control opcodes are stored in variables in this code base).
-func (e *emitter) opEffect(s *emSt, op string, call *ast.CallExpr, ctor *ast.CallExpr, dry bool) lin {
-	arg := func(i int) ast.Expr {
-		if i < len(ctor.Args) {
-			return ctor.Args[i]
-		}
-		return nil
-	}
+// (labels, jumps, reachability) to s.
+func (e *emitter) opEffect(s *emSt, info *types.Info, op string, call *ast.CallExpr, ctor *emInstr) lin {
+	arg := ctor.arg
 	prevLast := s.last
 	s.last = nil
-	clearTails := true
-	defer func() {
-		if clearTails {
-			// an instruction consumed/followed the last sub-expression: it is no longer in tail position
-		}
-	}()
 	switch op {
 	case "Opcode_Label":
-		key := e.labelKey(s, arg(1))
+		key := e.labelKey(s, info, arg(1))
 		s.emitCnt[key]++
 		rec := s.recorded[key]
 		tops := s.recTop[key]
@@ -829,7 +3116,7 @@ func (e *emitter) opEffect(s *emSt, op string, call *ast.CallExpr, ctor *ast.Cal
 		delete(s.recorded, key)
 		return linC(0)
 	case "Opcode_Jump", "Opcode_JumpIfFalse":
-		key := e.labelKey(s, arg(1))
+		key := e.labelKey(s, info, arg(1))
 		if !s.reach {
 			return linC(0)
 		}
@@ -877,14 +3164,14 @@ func (e *emitter) opEffect(s *emSt, op string, call *ast.CallExpr, ctor *ast.Cal
 	case "Opcode_SetTryLabel":
 		// the handler is entered with the error object above the height at this point
 		if a := arg(2); a != nil && s.reach {
-			key := e.labelKey(s, a)
+			key := e.labelKey(s, info, a)
 			s.recorded[key] = append(s.recorded[key], s.h.add(linC(1)))
 			s.recTop[key] = append(s.recTop[key], "exception object")
 		}
 		return linC(0)
 	case "Opcode_Call_Imm":
 		// consumes the arguments pushed for it, leaves the callee's result
-		r := linS("ν(node)")
+		r := e.resultSym()
 		take := lin{s: map[string]int{}}
 		for k, v := range s.h.s {
 			if strings.HasPrefix(k, "n(") && v > 0 {
@@ -904,7 +3191,7 @@ func (e *emitter) opEffect(s *emSt, op string, call *ast.CallExpr, ctor *ast.Cal
 		case "Opcode_Spawn":
 			return linC(-1).sub(argc).add(linC(1))
 		case "Opcode_Call_Val":
-			return linC(-2).sub(argc).add(linS("ν(node)"))
+			return linC(-2).sub(argc).add(e.resultSym())
 		default:
 			return linC(-1).sub(argc).add(linC(1))
 		}
@@ -914,8 +3201,11 @@ func (e *emitter) opEffect(s *emSt, op string, call *ast.CallExpr, ctor *ast.Cal
 		e.problem(s, call.Pos(), "opcode %s has no case in the VM's run loop", op)
 		return linC(0)
 	}
+	if eff.unknown != "" {
+		e.problem(s, call.Pos(), "the stack effect of opcode %s could not be extracted from the VM: %s", op, eff.unknown)
+	}
 	if op == "Opcode_Copy_Push" || op == "Opcode_Cloning_Push" {
-		if v, ok := e.intOf(s, arg(1)); ok {
+		if v, ok := e.intOf(s, info, arg(1)); ok {
 			vv := v
 			s.last = &vv
 		}
@@ -941,38 +3231,321 @@ func (e *emitter) opEffect(s *emSt, op string, call *ast.CallExpr, ctor *ast.Cal
 // walkFn analyses one emitter function and returns the exit states.
 func (e *emitter) walkFn(fd *ast.FuncDecl) (exits []*emSt, overflow bool) {
 	e.tailSyms = map[string]bool{}
-	e.collect = true
-	e.walkFnOnce(fd)
-	e.collect = false
-	return e.walkFnOnce(fd)
-}
-
-func (e *emitter) walkFnOnce(fd *ast.FuncDecl) (exits []*emSt, overflow bool) {
-	info := e.info
 	e.cur = fd
-	init := &emSt{reach: true, recTop: map[string][]string{}, recorded: map[string][]lin{}, emitted: map[string]lin{}, emitCnt: map[string]int{}, created: map[string]bool{},
-		alias: map[string]string{}, ints: map[types.Object]lin{}, tails: map[string]bool{}, nuFact: map[string]int{}, opVars: map[types.Object]string{}}
-	var handleCall func(s *emSt, call *ast.CallExpr)
-	handleCall = func(s *emSt, call *ast.CallExpr) {
-		fn := CalleeOf(info, call)
-		if fn == nil {
-			return
-		}
-		if fn == e.insert && len(call.Args) >= 1 {
-			if ctor, ok := ast.Unparen(call.Args[0]).(*ast.CallExpr); ok {
-				if cf := CalleeOf(info, ctor); cf != nil && e.ctors[cf] {
-					h0, n0, t0 := s.h, len(s.stk), s.stop()
-					e.emit(s, call, ctor)
-					if !(s.h.eq(h0) && len(s.stk) == n0 && s.stop() == t0) {
-						s.tails = map[string]bool{} // the instruction touched the stack: previous results are consumed or buried
-					}
-					return
+	e.curFn, _ = e.info.Defs[fd.Name].(*types.Func)
+	run := func() []*emSt {
+		e.overflow = false
+		e.inlStack = nil
+		e.pending = []map[string]int{{}}
+		e.seenWant = map[string]bool{emWantKey(map[string]int{}): true}
+		var all []*emSt
+		for runs := 0; len(e.pending) > 0; runs++ {
+			if runs > 64 {
+				e.overflow = true
+				break
+			}
+			e.want = e.pending[0]
+			e.pending = e.pending[1:]
+			for _, x := range e.walkBody(fd, fd.Body, newEmSt()) {
+				if emWantKey(emNonZero(x.picks)) == emWantKey(e.want) {
+					all = append(all, x)
 				}
 			}
-			// insert(additionalInst, ...) with an instruction variable: find its constructor
-			if id, ok := ast.Unparen(call.Args[0]).(*ast.Ident); ok {
-				obj := info.Uses[id]
-				var found *ast.CallExpr
+		}
+		return all
+	}
+	e.collect = true
+	run()
+	e.collect = false
+	exits = run()
+	return exits, e.overflow
+}
+
+func emNonZero(m map[string]int) map[string]int {
+	out := map[string]int{}
+	for k, v := range m {
+		if v != 0 {
+			out[k] = v
+		}
+	}
+	return out
+}
+
+func emWantKey(m map[string]int) string {
+	var ks []string
+	for k, v := range m {
+		ks = append(ks, fmt.Sprintf("%s=%d", k, v))
+	}
+	sort.Strings(ks)
+	return strings.Join(ks, ",")
+}
+
+// condFact normalises a decision: a comparison is keyed by its == form, accessors are replaced by
+// what they return.
+func (e *emitter) condFact(s *emSt, info *types.Info, cond ast.Expr, taken bool) (key string, val bool, expr ast.Expr, exprVal bool, inf *types.Info, restore func()) {
+	expr, inf = ast.Unparen(cond), info
+	var restores []func()
+	restore = func() {
+		for i := len(restores) - 1; i >= 0; i-- {
+			restores[i]()
+		}
+	}
+	val = taken
+	for depth := 0; depth < 4; depth++ {
+		if u, ok := expr.(*ast.UnaryExpr); ok && u.Op == token.NOT {
+			expr, val = ast.Unparen(u.X), !val
+			continue
+		}
+		if id, ok := expr.(*ast.Ident); ok {
+			// a boolean local / parameter that holds a condition over the node
+			if bound, ok := s.conds[inf.Uses[id]]; ok && inf == e.info {
+				expr = ast.Unparen(bound)
+				continue
+			}
+		}
+		if c, ok := expr.(*ast.CallExpr); ok {
+			if inner, i2, neg, r := e.accessor(s, inf, c); inner != nil {
+				restores = append(restores, r)
+				expr, inf = ast.Unparen(inner), i2
+				if neg {
+					val = !val
+				}
+				continue
+			}
+		}
+		break
+	}
+	if b, ok := expr.(*ast.BinaryExpr); ok && (b.Op == token.EQL || b.Op == token.NEQ) {
+		x, y := b.X, b.Y
+		isConst := func(z ast.Expr) bool {
+			if ConstOf(inf, z) != nil {
+				return true
+			}
+			tv, ok := inf.Types[z]
+			return ok && (tv.Value != nil || tv.IsNil())
+		}
+		if isConst(x) && !isConst(y) {
+			x, y = y, x
+		}
+		key = e.canon(s, inf, x) + " == " + e.canon(s, inf, y)
+		exprVal = val
+		if b.Op == token.NEQ {
+			val = !val
+		}
+		return key, val, expr, exprVal, inf, restore
+	}
+	return e.canon(s, inf, expr), val, expr, val, inf, restore
+}
+
+func emStable(key string) bool {
+	return !strings.Contains(key, "(") || strings.Contains(key, ".Kind()") || strings.Contains(key, "len(")
+}
+
+func emHas(l []string, x string) bool {
+	for _, y := range l {
+		if y == x {
+			return true
+		}
+	}
+	return false
+}
+
+// tagCase: the facts about the value of a switch tag / compared expression. names: the constants of the
+// clause (nil with isDefault: the default clause, others = constants of the other clauses).
+func (e *emitter) tagEnter(s *emSt, tag string, names []string, isDefault bool, others []string) bool {
+	if !emStable(tag) {
+		return true
+	}
+	in, hasIn := s.tags["in:"+tag]
+	out := s.tags["out:"+tag]
+	if !isDefault {
+		var keep []string
+		for _, n := range names {
+			if (!hasIn || emHas(in, n)) && !emHas(out, n) {
+				keep = append(keep, n)
+			}
+		}
+		if len(keep) == 0 {
+			return false
+		}
+		s.tags["in:"+tag] = keep
+		return true
+	}
+	if hasIn {
+		var keep []string
+		for _, n := range in {
+			if !emHas(others, n) {
+				keep = append(keep, n)
+			}
+		}
+		if len(keep) == 0 {
+			return false
+		}
+		s.tags["in:"+tag] = keep
+		return true
+	}
+	no := append([]string(nil), out...)
+	for _, n := range others {
+		if !emHas(no, n) {
+			no = append(no, n)
+		}
+	}
+	sort.Strings(no)
+	s.tags["out:"+tag] = no
+	return true
+}
+
+// pureChain: a path of the node that may pass through accessor methods: nullary methods of the node
+// types (types of other packages than the compiler's: the analyzed tree is immutable while it is
+// compiled) and side-effect free accessors.
+func (e *emitter) pureChain(s *emSt, info *types.Info, x ast.Expr) bool {
+	switch t := ast.Unparen(x).(type) {
+	case *ast.Ident:
+		return t.Name != "nil" && t.Name != "true" && t.Name != "false"
+	case *ast.SelectorExpr:
+		return e.pureChain(s, info, t.X)
+	case *ast.IndexExpr:
+		return e.pureChain(s, info, t.X)
+	case *ast.TypeAssertExpr:
+		return e.pureChain(s, info, t.X)
+	case *ast.StarExpr:
+		return e.pureChain(s, info, t.X)
+	case *ast.CallExpr:
+		sel, ok := ast.Unparen(t.Fun).(*ast.SelectorExpr)
+		if !ok || len(t.Args) != 0 || !e.pureChain(s, info, sel.X) {
+			return false
+		}
+		if inner, _, _, restore := e.accessor(s, info, t); inner != nil {
+			restore()
+			return true
+		}
+		fn := CalleeOf(info, t)
+		if fn == nil {
+			return false
+		}
+		sig, _ := fn.Type().(*types.Signature)
+		if sig == nil || sig.Recv() == nil || sig.Results().Len() != 1 {
+			return false
+		}
+		return fn.Pkg() != nil && e.curFn != nil && fn.Pkg() != e.curFn.Pkg()
+	}
+	return false
+}
+
+// isCondition: obj is a boolean that is given a condition (a comparison, a negation, a conjunction
+// ...) whose operands are stable, so that a later test of obj is a test of that condition.
+func (e *emitter) isCondition(info *types.Info, obj types.Object, r ast.Expr) bool {
+	b, ok := obj.Type().Underlying().(*types.Basic)
+	if !ok || b.Info()&types.IsBoolean == 0 {
+		return false
+	}
+	switch t := ast.Unparen(r).(type) {
+	case *ast.BinaryExpr, *ast.UnaryExpr:
+		_ = t
+		return emStable(exprStr(r))
+	}
+	return false
+}
+
+// pathLike: the expression only names a part of something (selectors, indices, type assertions, dereferences).
+func emPathLike(x ast.Expr) bool {
+	switch t := ast.Unparen(x).(type) {
+	case *ast.Ident:
+		return t.Name != "nil" && t.Name != "true" && t.Name != "false"
+	case *ast.SelectorExpr:
+		return emPathLike(t.X)
+	case *ast.IndexExpr:
+		return emPathLike(t.X)
+	case *ast.TypeAssertExpr:
+		return emPathLike(t.X)
+	case *ast.StarExpr:
+		return emPathLike(t.X)
+	}
+	return false
+}
+
+// loopList: the list a loop runs over, as the n(...) symbol of its length, and the index variable.
+func (e *emitter) loopList(s *emSt, info *types.Info, loop ast.Stmt) (sym string, idx types.Object) {
+	sole := func(l lin) string {
+		found := ""
+		for k := range l.s {
+			if strings.HasPrefix(k, "n(") {
+				if found != "" && found != k {
+					return ""
+				}
+				found = k
+			}
+		}
+		return found
+	}
+	switch x := loop.(type) {
+	case *ast.RangeStmt:
+		if t := info.TypeOf(x.X); t != nil {
+			if b, ok := t.Underlying().(*types.Basic); ok && b.Info()&types.IsInteger != 0 {
+				if v, ok := e.intOf(s, info, x.X); ok {
+					if k := sole(v); k != "" {
+						return k, emObjOf(info, x.Key)
+					}
+				}
+				return "n(?)", emObjOf(info, x.Key)
+			}
+		}
+		return "n(" + e.canon(s, info, x.X) + ")", emObjOf(info, x.Key)
+	case *ast.ForStmt:
+		var cands []ast.Expr
+		if as, ok := x.Init.(*ast.AssignStmt); ok && len(as.Lhs) == 1 && len(as.Rhs) == 1 {
+			idx = emObjOf(info, as.Lhs[0])
+			cands = append(cands, as.Rhs[0])
+		}
+		if b, ok := ast.Unparen(x.Cond).(*ast.BinaryExpr); ok && x.Cond != nil {
+			cands = append(cands, b.Y, b.X)
+		}
+		for _, c := range cands {
+			if v, ok := e.intOf(s, info, c); ok {
+				if k := sole(v); k != "" {
+					return k, idx
+				}
+			}
+		}
+		// a loop that consumes a slice: for len(rest) > 0 { ...; rest = rest[1:] }
+		if x.Cond != nil {
+			found := ""
+			ast.Inspect(x.Cond, func(n ast.Node) bool {
+				if c, ok := n.(*ast.CallExpr); ok {
+					if id, ok := c.Fun.(*ast.Ident); ok && id.Name == "len" && len(c.Args) == 1 {
+						found = "n(" + e.canon(s, info, c.Args[0]) + ")"
+					}
+				}
+				return true
+			})
+			if found != "" {
+				return found, idx
+			}
+		}
+	}
+	return "n(?)", idx
+}
+
+func emListOf(sym string) string { return strings.TrimSuffix(strings.TrimPrefix(sym, "n("), ")") }
+
+// walkBody walks a function body (the analysed function, an inlined helper or an inlined function
+// literal) from state init and returns the states at its normal exits.
+func (e *emitter) walkBody(fd *ast.FuncDecl, body *ast.BlockStmt, init *emSt) (exits []*emSt) {
+	info := e.info
+	depth := init.depth
+	var handleCall func(s *emSt, call *ast.CallExpr)
+	var visit func(s *emSt, n ast.Node)
+	// the instruction a constructor call (or a wrapper returning one) builds
+	resolveCtor := func(s *emSt, x ast.Expr) *emInstr {
+		x = ast.Unparen(x)
+		if id, ok := x.(*ast.Ident); ok {
+			// an instruction variable: what it was assigned on this path, else the (only) constructor
+			// call assigned to it anywhere in the function
+			obj := info.Uses[id]
+			if c, ok := s.insts[obj]; ok {
+				x = ast.Unparen(c)
+			} else {
+				var found ast.Expr
 				ast.Inspect(fd.Body, func(n ast.Node) bool {
 					if as, ok := n.(*ast.AssignStmt); ok {
 						for i, l := range as.Lhs {
@@ -987,20 +3560,97 @@ func (e *emitter) walkFnOnce(fd *ast.FuncDecl) (exits []*emSt, overflow bool) {
 					}
 					return true
 				})
-				if found != nil {
-					e.emit(s, call, found)
-					s.tails = map[string]bool{}
+				if found == nil {
+					return nil
+				}
+				x = found
+			}
+		}
+		for i := 0; i < 4; i++ {
+			if cl := e.isInstrLit(info, x); cl != nil {
+				return e.instrOfLit(info, cl)
+			}
+			cc, ok := x.(*ast.CallExpr)
+			if !ok {
+				return nil
+			}
+			// a conversion to the instruction interface
+			if info.Types[cc.Fun].IsType() && len(cc.Args) == 1 {
+				x = ast.Unparen(cc.Args[0])
+				continue
+			}
+			cf := CalleeOf(info, cc)
+			if cf == nil || !e.ctors[cf] {
+				return nil
+			}
+			// a wrapper: `return <constructor call / instruction literal>` — continue inside with the parameters
+			// bound (the constructors of the package themselves are such wrappers around a literal: they are
+			// used by position, opcode first, unless they fix the opcode)
+			if di, ok := e.decls[cf]; ok && len(di.fd.Body.List) == 1 {
+				if r, ok := di.fd.Body.List[0].(*ast.ReturnStmt); ok && len(r.Results) == 1 {
+					if inner, ok := ast.Unparen(r.Results[0]).(*ast.CallExpr); ok {
+						if icf := CalleeOf(info, inner); icf != nil && e.ctors[icf] {
+							e.bindParams(s, di.fd, cc)
+							x = inner
+							continue
+						}
+					}
+				}
+			}
+			return e.instrOfCall(info, cc)
+		}
+		return nil
+	}
+	handleCall = func(s *emSt, call *ast.CallExpr) {
+		if s.dead {
+			return
+		}
+		fn := CalleeOf(info, call)
+		if fn == nil {
+			// a local holding a function literal
+			if obj := emObjOf(info, call.Fun); obj != nil {
+				if lit, ok := s.funcs[obj]; ok {
+					e.inlineLit(s, fd, lit, call)
+				} else if v, isVar := obj.(*types.Var); isVar && s.depth == 0 && e.isParamOf(v, e.cur) {
+					if _, isFunc := v.Type().Underlying().(*types.Signature); isFunc {
+						// a callback: what it emits is known only where the function is called
+						e.problem(s, call.Pos(), emCallbackMark+"calls its parameter %s: what that emits is known at the call sites only", v.Name())
+					}
+				}
+			}
+			return
+		}
+		if ai, isInsert := e.inserts[fn]; isInsert && ai < len(call.Args) {
+			if ctor := resolveCtor(s, call.Args[ai]); ctor != nil {
+				h0, n0, t0 := s.h, len(s.stk), s.stop()
+				e.emit(s, info, call, ctor)
+				if !(s.h.eq(h0) && len(s.stk) == n0 && s.stop() == t0) {
+					s.tails = map[string]bool{} // the instruction touched the stack: previous results are consumed or buried
+				}
+				return
+			}
+			if obj := emObjOf(info, call.Args[ai]); obj != nil && s.depth == 0 {
+				if v, isVar := obj.(*types.Var); isVar && e.isParamOf(v, e.cur) {
+					// the function is handed the instruction: its effect is that of the instruction
+					s.last = nil
+					if s.reach {
+						s.h = s.h.add(linS("δ(" + v.Name() + ")"))
+						s.stk = append(s.stk, "?")
+						s.tails = map[string]bool{}
+					}
 					return
 				}
 			}
-			e.problem(s, call.Pos(), "insert() of an instruction the analysis cannot identify: %s", exprStr(call.Args[0]))
+			e.problem(s, call.Pos(), "insert() of an instruction the analysis cannot identify: %s", exprStr(call.Args[ai]))
 			return
 		}
-		sig, _ := fn.Type().(*types.Signature)
-		if sig == nil || sig.Recv() == nil {
+		cfd, isEmitter := e.fns[fn]
+		if !isEmitter {
 			return
 		}
-		if _, isEmitter := e.fns[fn]; !isEmitter {
+		switch e.role[fn] {
+		case emRHelper, emRFragment:
+			e.inlineCall(s, call, fn, cfd)
 			return
 		}
 		if !s.reach {
@@ -1012,39 +3662,12 @@ func (e *emitter) walkFnOnce(fd *ast.FuncDecl) (exits []*emSt, overflow bool) {
 			// emits into another function's instruction list
 			return
 		}
-		if sm, ok := e.summ[fn]; ok && sm != nil {
-			// substitute the actual arguments for the helper's parameters in its symbolic effect
-			sub := map[string]string{}
-			for i, pn := range sm.params {
-				if i < len(call.Args) && pn != "" && pn != "_" {
-					sub[pn] = exprStr(ast.Unparen(call.Args[i]))
-				}
-			}
-			eff := emSubst(sm.eff, sub)
-			s.h = s.h.add(eff)
-			s.tails = map[string]bool{}
-			switch {
-			case eff.c < 0:
-				s.spop(-eff.c + 1)
-				s.spush("op:" + fn.Name())
-			case eff.c == 0:
-				s.spop(1)
-				s.spush("op:" + fn.Name())
-			default:
-				s.spush("op:" + fn.Name())
-			}
-			if sm.last != nil {
-				l := emSubst(*sm.last, sub)
-				s.last = &l
-			}
-			return
-		}
 		// statements may leave their construct by a jump to a label that was emitted at the
 		// statement-level base height (break/continue → loop labels, return → cleanup label):
 		// a loop that keeps a value on the operand stack across its body leaks it on every
 		// such exit. So inside compileStmt, a body block / nested statement is compiled at
 		// the height the statement started with.
-		if curFn, _ := info.Defs[e.cur.Name].(*types.Func); curFn != nil && curFn == e.stmtDispatch && !e.collect && (e.role[fn] == emRBlockLike || fn == e.stmtDispatch) {
+		if e.curFn != nil && e.role[e.curFn] == emRStmtLike && !e.collect && (e.role[fn] == emRBlockLike || fn == e.stmtDispatch) {
 			if h1 := e.w1(s.h); len(h1.s) != 0 || h1.c != 0 {
 				e.problem(s, call.Pos(), "%s is compiled while the statement holds %s extra value(s) on the operand stack: a break/continue/return inside it jumps to a label emitted at the base height and leaves them behind", exprStr(call), s.h)
 			}
@@ -1056,8 +3679,8 @@ func (e *emitter) walkFnOnce(fd *ast.FuncDecl) (exits []*emSt, overflow bool) {
 			return
 		default:
 			// compileExpr(x), compileBlock(x, _), compileIfExpr(node), compileCallExpr(node), compileInfixExpr(node)
-			if len(call.Args) >= 1 {
-				v := e.nu(s, call.Args[0])
+			if a := e.nodeArg(fn, call); a != nil {
+				v := e.nu(s, info, a)
 				s.h = s.h.add(v)
 				s.tails = map[string]bool{}
 				for k := range v.s {
@@ -1070,7 +3693,6 @@ func (e *emitter) walkFnOnce(fd *ast.FuncDecl) (exits []*emSt, overflow bool) {
 			}
 		}
 	}
-	var visit func(s *emSt, n ast.Node)
 	visit = func(s *emSt, n ast.Node) {
 		ast.Inspect(n, func(m ast.Node) bool {
 			switch x := m.(type) {
@@ -1080,163 +3702,319 @@ func (e *emitter) walkFnOnce(fd *ast.FuncDecl) (exits []*emSt, overflow bool) {
 				for _, a := range x.Args {
 					visit(s, a)
 				}
+				if sel, ok := ast.Unparen(x.Fun).(*ast.SelectorExpr); ok {
+					visit(s, sel.X)
+				}
 				handleCall(s, x)
 				return false
 			}
 			return true
 		})
 	}
-	w := &Walker[*emSt]{
+	// loop heads: the statement that initialises a for loop
+	initOf := map[ast.Stmt]*ast.ForStmt{}
+	ast.Inspect(body, func(n ast.Node) bool {
+		if f, ok := n.(*ast.ForStmt); ok && f.Init != nil {
+			initOf[f.Init] = f
+		}
+		return true
+	})
+	assign := func(s *emSt, lhs, rhs []ast.Expr, define bool) {
+		for i, l := range lhs {
+			if i >= len(rhs) {
+				break
+			}
+			r := ast.Unparen(rhs[i])
+			if rc, ok := r.(*ast.CallExpr); ok {
+				if fn := CalleeOf(info, rc); fn != nil && e.isNameMaker(fn) {
+					s.created[e.canon(s, info, l)] = true
+					continue
+				}
+				if cf := CalleeOf(info, rc); cf != nil && e.ctors[cf] {
+					if obj := emObjOf(info, l); obj != nil {
+						s.insts[obj] = rc
+					}
+					continue
+				}
+			}
+			if cl := e.isInstrLit(info, r); cl != nil {
+				if obj := emObjOf(info, l); obj != nil {
+					s.insts[obj] = cl
+				}
+				continue
+			}
+			if lit, ok := r.(*ast.FuncLit); ok {
+				if obj := emObjOf(info, l); obj != nil {
+					s.funcs[obj] = lit
+				}
+				continue
+			}
+			if _, ok := ast.Unparen(l).(*ast.IndexExpr); ok {
+				if emPathLike(r) {
+					if rk := e.canon(s, info, r); s.created[rk] {
+						s.alias[e.canon(s, info, l)] = rk
+						continue
+					}
+				}
+			}
+			obj := emObjOf(info, l)
+			if obj == nil {
+				continue
+			}
+			delete(s.insts, obj)
+			delete(s.funcs, obj)
+			delete(s.conds, obj)
+			if e.isCondition(info, obj, r) {
+				s.conds[obj] = r
+			}
+			if v, ok := e.intOf(s, info, r); ok {
+				s.ints[obj] = v
+			} else {
+				delete(s.ints, obj)
+			}
+			// a local naming a path of the node (or a created label)
+			if emPathLike(r) || e.pureChain(s, info, r) {
+				txt := e.canon(s, info, r)
+				if s.created[txt] || !types.Identical(obj.Type(), e.opcodeT) {
+					s.env[obj] = txt
+					continue
+				}
+			}
+			if _, had := s.env[obj]; had {
+				delete(s.env, obj)
+			}
+			if !define {
+				// remembered decisions about the old value are void
+				name := e.canon(s, info, l)
+				for k := range s.nuFact {
+					if strings.HasPrefix(k, "cond:") && emMentions(k, name) {
+						delete(s.nuFact, k)
+					}
+				}
+				for k := range s.tags {
+					if emMentions(k, name) {
+						delete(s.tags, k)
+					}
+				}
+			}
+		}
+	}
+	var w *Walker[*emSt]
+	w = &Walker[*emSt]{
 		Clone:    emClone,
 		MaxPaths: 60000,
-		IsPanic:  func(s ast.Stmt) bool { return IsPanicCall(info, s) },
+		IsPanic:  func(s ast.Stmt) bool { return e.diverges(info, s) },
 		OnStmt: func(s *emSt, stmt ast.Stmt) (*emSt, bool) {
+			if s.dead {
+				return s, false
+			}
 			switch x := stmt.(type) {
 			case *ast.AssignStmt:
-				// label creation / aliases / integer locals
-				for i, l := range x.Lhs {
-					if i >= len(x.Rhs) {
-						break
-					}
-					r := ast.Unparen(x.Rhs[i])
-					if rc, ok := r.(*ast.CallExpr); ok {
-						if fn := CalleeOf(info, rc); fn != nil && e.isNameMaker(fn) {
-							s.created[exprStr(l)] = true
-							continue
-						}
-					}
-					if _, ok := l.(*ast.IndexExpr); ok {
-						if rid, ok := r.(*ast.Ident); ok && s.created[rid.Name] {
-							s.alias[exprStr(l)] = rid.Name
-							continue
-						}
-					}
-					if lid, ok := l.(*ast.Ident); ok {
-						if k := ConstOf(info, r); k != nil && types.Identical(k.Type(), e.opcodeT) {
-							obj := info.Defs[lid]
-							if obj == nil {
-								obj = info.Uses[lid]
-							}
-							s.opVars[obj] = k.Name()
-							continue
-						}
-						if v, ok := e.intOf(s, r); ok {
-							obj := info.Defs[lid]
-							if obj == nil {
-								obj = info.Uses[lid]
-							}
-							if obj != nil {
-								s.ints[obj] = v
-							}
-						}
+				// calls on the right-hand side run first
+				visit(s, stmt)
+				if x.Tok == token.ASSIGN || x.Tok == token.DEFINE {
+					// label creation / aliases / integer locals
+					assign(s, x.Lhs, x.Rhs, x.Tok == token.DEFINE)
+				}
+				e.bindValues(s, info, stmt)
+				if f := initOf[stmt]; f != nil {
+					if sym, idx := e.loopList(s, info, f); idx != nil && sym != "n(?)" {
+						s.env[idx] = "i‹" + emListOf(sym) + "›"
 					}
 				}
-				visit(s, stmt)
 			case *ast.DeclStmt:
-				if gd, ok := x.Decl.(*ast.GenDecl); ok {
+				visit(s, stmt)
+				if gd, ok := x.Decl.(*ast.GenDecl); ok && gd.Tok == token.VAR {
 					for _, sp := range gd.Specs {
-						if vs, ok := sp.(*ast.ValueSpec); ok {
-							for i, n := range vs.Names {
-								if i < len(vs.Values) {
-									if k := ConstOf(info, vs.Values[i]); k != nil && types.Identical(k.Type(), e.opcodeT) {
-										s.opVars[info.Defs[n]] = k.Name()
-									} else if v, ok := e.intOf(s, vs.Values[i]); ok {
-										s.ints[info.Defs[n]] = v
-									}
-								}
+						if vs, ok := sp.(*ast.ValueSpec); ok && len(vs.Values) == len(vs.Names) {
+							var lhs []ast.Expr
+							for _, n := range vs.Names {
+								lhs = append(lhs, n)
 							}
+							assign(s, lhs, vs.Values, true)
 						}
 					}
 				}
-				visit(s, stmt)
+				e.bindValues(s, info, stmt)
+			case *ast.IncDecStmt:
+				if obj := emObjOf(info, x.X); obj != nil {
+					delete(s.env, obj)
+					if v, ok := s.ints[obj]; ok {
+						if x.Tok == token.INC {
+							s.ints[obj] = v.add(linC(1))
+						} else {
+							s.ints[obj] = v.add(linC(-1))
+						}
+					}
+				}
+				e.bindValues(s, info, stmt)
 			default:
 				visit(s, stmt)
 			}
-			return s, true
+			return s, !s.dead
 		},
 		OnDefer: func(s *emSt, d *ast.DeferStmt) (*emSt, bool) { return s, true },
 		OnCond: func(s *emSt, cond ast.Expr, taken bool) (*emSt, bool) {
+			if s.dead {
+				return s, false
+			}
+			// calls inside the condition run first
+			visit(s, cond)
+			if s.dead {
+				return s, false
+			}
+			key, val, expr, exprVal, inf, restore := e.condFact(s, info, cond, taken)
+			defer restore()
 			// the same side-effect-free condition over the (immutable) node decides the same way
 			// every time it is evaluated on one path
-			ck := "cond:" + exprStr(cond)
+			ck := "cond:" + key
 			if prev, ok := s.nuFact[ck]; ok {
-				if (prev == 1) != taken {
+				if (prev == 1) != val {
 					return s, false
 				}
-			} else if !strings.Contains(ck, "(") || strings.Contains(ck, ".Kind()") || strings.Contains(ck, "len(") {
+			} else if emStable(ck) {
 				v := 0
-				if taken {
+				if val {
 					v = 1
 				}
 				s.nuFact[ck] = v
 			}
-			// X.Type().Kind() != ast.NullTypeKind  →  ν(X) = 1 / 0
-			if b, ok := ast.Unparen(cond).(*ast.BinaryExpr); ok && (b.Op == token.NEQ || b.Op == token.EQL) {
-				if k := ConstOf(info, b.Y); k != nil && k.Name() == "NullTypeKind" {
-					if c1, ok := ast.Unparen(b.X).(*ast.CallExpr); ok {
-						if s1, ok := c1.Fun.(*ast.SelectorExpr); ok && s1.Sel.Name == "Kind" {
-							if c2, ok := ast.Unparen(s1.X).(*ast.CallExpr); ok {
-								if s2, ok := c2.Fun.(*ast.SelectorExpr); ok && s2.Sel.Name == "Type" {
-									sym := "ν(" + exprStr(s2.X) + ")"
-									nonNull := (b.Op == token.NEQ) == taken
-									v := 0
-									if nonNull {
-										v = 1
-									}
-									s.nuFact[sym] = v
-									// substitute in the current height
-									if n, ok := s.h.s[sym]; ok {
-										s.h = s.h.add(lin{c: n * v, s: map[string]int{sym: -n}})
-									}
-								}
-							}
+			if b, ok := expr.(*ast.BinaryExpr); ok && (b.Op == token.NEQ || b.Op == token.EQL) {
+				x, y := b.X, b.Y
+				if ConstOf(inf, x) != nil && ConstOf(inf, y) == nil {
+					x, y = y, x
+				}
+				if k := ConstOf(inf, y); k != nil {
+					eq := val
+					// the value of a switch tag / compared expression
+					tag := e.canon(s, inf, x)
+					if eq {
+						if !e.tagEnter(s, tag, []string{k.Name()}, false, nil) {
+							return s, false
+						}
+					} else {
+						if !e.tagEnter(s, tag, nil, true, []string{k.Name()}) {
+							return s, false
+						}
+					}
+					// X.Type().Kind() != ast.NullTypeKind  →  ν(X) = 1 / 0
+					if k.Name() == "NullTypeKind" && strings.HasSuffix(tag, ".Type().Kind()") {
+						sym := "ν(" + strings.TrimSuffix(tag, ".Type().Kind()") + ")"
+						v := 0
+						if !eq {
+							v = 1
+						}
+						s.nuFact[sym] = v
+						// substitute in the current height
+						if n, ok := s.h.s[sym]; ok {
+							s.h = s.h.add(lin{c: n * v, s: map[string]int{sym: -n}})
 						}
 					}
 				}
 			}
+			if !e.filterCond(s, inf, expr, exprVal) {
+				return s, false
+			}
 			return s, true
 		},
 		OnCase: func(s *emSt, sw *ast.SwitchStmt, vals, others []ast.Expr) (*emSt, bool) {
+			if s.dead {
+				return s, false
+			}
+			names := func(l []ast.Expr) ([]string, bool) {
+				var out []string
+				for _, v := range l {
+					k := ConstOf(info, v)
+					if k == nil {
+						return nil, false
+					}
+					out = append(out, k.Name())
+				}
+				return out, true
+			}
 			// remember the outermost Kind()/operator case for grouping
-			if s.caseKey == "" {
-				var names []string
-				for _, v := range vals {
-					if k := ConstOf(info, v); k != nil {
-						names = append(names, k.Name())
+			if s.caseKey == "" && depth == 0 {
+				ns, _ := names(vals)
+				if vals == nil {
+					ns = []string{"default"}
+				}
+				if len(ns) > 0 {
+					s.caseKey = "case " + strings.Join(ns, ",")
+				}
+			}
+			if sw.Tag != nil {
+				tag := e.canon(s, info, sw.Tag)
+				vn, ok1 := names(vals)
+				on, ok2 := names(others)
+				if vals != nil && ok1 {
+					if !e.tagEnter(s, tag, vn, false, nil) {
+						return s, false
+					}
+				} else if vals == nil && ok2 {
+					if !e.tagEnter(s, tag, nil, true, on) {
+						return s, false
 					}
 				}
-				if vals == nil {
-					names = []string{"default"}
-				}
-				if len(names) > 0 {
-					s.caseKey = "case " + strings.Join(names, ",")
+				if !e.caseFeasible(s, info, sw.Tag, vals, others) {
+					return s, false
 				}
 			}
 			return s, true
 		},
-		LoopSummary: nil,
+	}
+	// a type switch over a node is a switch over its kind: `case ast.AnalyzedIntLiteralExpression` is
+	// `case ast.IntLiteralExpressionKind` (the constant the type's Kind() method returns)
+	w.OnTypeCase = func(s *emSt, sw *ast.TypeSwitchStmt, cc *ast.CaseClause) (*emSt, bool) {
+		if s.dead {
+			return s, false
+		}
+		x := emTypeSwitchOperand(sw)
+		if x == nil {
+			return s, true
+		}
+		if obj := info.Implicits[cc]; obj != nil {
+			s.env[obj] = e.canon(s, info, x)
+		}
+		kinds := func(l []ast.Expr) ([]string, bool) {
+			var out []string
+			for _, t := range l {
+				k := e.kindOfType(info.TypeOf(t))
+				if k == "" {
+					return nil, false
+				}
+				out = append(out, k)
+			}
+			return out, true
+		}
+		tag := e.canon(s, info, x) + ".Kind()"
+		if cc.List != nil {
+			if ks, ok := kinds(cc.List); ok {
+				if s.caseKey == "" && depth == 0 {
+					s.caseKey = "case " + strings.Join(ks, ",")
+				}
+				return s, e.tagEnter(s, tag, ks, false, nil)
+			}
+			return s, true
+		}
+		var others []ast.Expr
+		for _, c := range sw.Body.List {
+			others = append(others, c.(*ast.CaseClause).List...)
+		}
+		if s.caseKey == "" && depth == 0 {
+			s.caseKey = "case default"
+		}
+		if ks, ok := kinds(others); ok {
+			return s, e.tagEnter(s, tag, nil, true, ks)
+		}
+		return s, true
 	}
 	w.LoopSummary = func(loop ast.Stmt, before *emSt, ends []*emSt) (*emSt, bool) {
-		e.inLoop--
 		post := emClone(before)
+		e.forgetAssigned(post, info, loop)
 		if len(ends) == 0 {
 			return post, true
 		}
-		// list symbol
-		listSym := "n(?)"
-		switch x := loop.(type) {
-		case *ast.RangeStmt:
-			listSym = "n(" + exprStr(x.X) + ")"
-		case *ast.ForStmt:
-			ast.Inspect(x, func(n ast.Node) bool {
-				if c, ok := n.(*ast.CallExpr); ok {
-					if id, ok := c.Fun.(*ast.Ident); ok && id.Name == "len" && len(c.Args) == 1 {
-						listSym = "n(" + exprStr(c.Args[0]) + ")"
-					}
-				}
-				return true
-			})
-		}
+		listSym, _ := e.loopList(before, info, loop)
 		var d0 lin
 		mixed := false
 		for i, en := range ends {
@@ -1278,6 +4056,17 @@ func (e *emitter) walkFnOnce(fd *ast.FuncDecl) (exits []*emSt, overflow bool) {
 			for k, v := range en.alias {
 				post.alias[k] = v
 			}
+			for k, v := range en.inst {
+				if v > post.inst[k] {
+					post.inst[k] = v
+				}
+			}
+			for k, v := range en.picks {
+				if _, ok := before.picks[k]; !ok {
+					post.picks[k] = v
+					post.problems = append(post.problems, fmt.Sprintf("%s: a helper that ends in several different ways is used inside an emitter loop: not supported", e.c.Pos(loop.Pos())))
+				}
+			}
 			for _, p := range en.problems {
 				dup := false
 				for _, q := range post.problems {
@@ -1293,7 +4082,7 @@ func (e *emitter) walkFnOnce(fd *ast.FuncDecl) (exits []*emSt, overflow bool) {
 		}
 		if mixed {
 			// element-dependent effect (e.g. a parameter loop that skips some elements): opaque total
-			post.h = before.h.add(linS("Σ(" + strings.TrimSuffix(strings.TrimPrefix(listSym, "n("), ")") + ")"))
+			post.h = before.h.add(linS("Σ(" + emListOf(listSym) + ")"))
 		} else if len(d0.s) != 0 {
 			post.problems = append(post.problems, fmt.Sprintf("%s: per-iteration stack effect of the emitter loop over %s is symbolic (%s): not supported", e.c.Pos(loop.Pos()), listSym, d0))
 		} else if d0.c != 0 {
@@ -1323,8 +4112,7 @@ func (e *emitter) walkFnOnce(fd *ast.FuncDecl) (exits []*emSt, overflow bool) {
 				}
 			}
 		}
-		for k, v := range post.recorded {
-			_ = v
+		for k := range post.recorded {
 			if _, ok := post.recTop[k]; !ok {
 				for _, en := range ends {
 					if t, ok := en.recTop[k]; ok {
@@ -1335,58 +4123,520 @@ func (e *emitter) walkFnOnce(fd *ast.FuncDecl) (exits []*emSt, overflow bool) {
 		}
 		return post, true
 	}
-	// loops: sub-expressions inside count as value-producing
-	origRange := w.OnRange
-	_ = origRange
-	w.OnRange = func(s *emSt, r *ast.RangeStmt) (*emSt, bool) { return s, true }
+	w.OnRange = func(s *emSt, r *ast.RangeStmt) (*emSt, bool) {
+		// the index / element of a generic iteration
+		sym, _ := e.loopList(s, info, r)
+		list := emListOf(sym)
+		idx := "i‹" + list + "›"
+		if k := emObjOf(info, r.Key); k != nil {
+			if t := info.TypeOf(r.X); t != nil {
+				if _, isMap := t.Underlying().(*types.Map); !isMap {
+					s.env[k] = idx
+				}
+			}
+			delete(s.ints, k)
+			s.unbind(k)
+		}
+		if v := emObjOf(info, r.Value); v != nil {
+			s.env[v] = list + "[" + idx + "]"
+			delete(s.ints, v)
+			s.unbind(v)
+		}
+		return s, true
+	}
 	w.Exit = func(s *emSt, o outcome) {
-		if o.kind == cPanic {
+		if o.kind == cPanic || s.dead {
 			return
 		}
-		if s.reach {
+		// deferred calls run at the exit, last registered first
+		for _, d := range w.PendingDefers() {
+			if lit, ok := ast.Unparen(d.Call.Fun).(*ast.FuncLit); ok {
+				e.inlineLit(s, fd, lit, d.Call)
+			} else {
+				handleCall(s, d.Call)
+			}
+			if s.dead {
+				return
+			}
+		}
+		if depth == 0 && s.reach {
 			e.markTails(s)
+		}
+		if depth == 0 && (e.curFn == e.exprDispatch || e.curFn == e.stmtDispatch) {
+			// the case of a dispatcher a path belongs to: the kind(s) its node has on this path, whether
+			// that was decided by a switch clause or by a comparison
+			if i := e.nodeParamIndex(e.curFn); i >= 0 {
+				k := 0
+				for _, f := range fd.Type.Params.List {
+					for _, n := range f.Names {
+						if k == i {
+							if in := s.tags["in:"+n.Name+".Kind()"]; len(in) > 0 {
+								s.caseKey = "case " + strings.Join(in, ",")
+							}
+						}
+						k++
+					}
+					if len(f.Names) == 0 {
+						k++
+					}
+				}
+			}
+		}
+		s.ret = nil
+		if depth > 0 && o.kind == cReturn && len(o.ret.Results) > 0 {
+			s.ret = e.evalRows(s, info, o.ret.Results)
+			if s.ret == nil {
+				s.ret = [][]emVal{make([]emVal, len(o.ret.Results))}
+			}
 		}
 		exits = append(exits, s)
 	}
-	// track loop nesting for e.nu: wrap stmts via a pre/post on ForStmt/RangeStmt is not available in the
-	// walker, so approximate: mark inLoop while the LoopSummary body walk runs.
-	e.inLoop = 0
-	origStmt := w.OnStmt
-	w.OnStmt = func(s *emSt, stmt ast.Stmt) (*emSt, bool) { return origStmt(s, stmt) }
-	e.runWithLoopDepth(w, fd, init)
-	return exits, w.Overflow
+	w.Run(body, init)
+	if w.Overflow {
+		e.overflow = true
+	}
+	return exits
 }
 
-// runWithLoopDepth runs the walker; e.inLoop is raised while a loop body is
-// being walked (the walker calls OnRange / evaluates the loop condition right
-// before the body and LoopSummary right after).
-func (e *emitter) runWithLoopDepth(w *Walker[*emSt], fd *ast.FuncDecl, init *emSt) {
-	prevRange := w.OnRange
-	w.OnRange = func(s *emSt, r *ast.RangeStmt) (*emSt, bool) {
-		e.inLoop++
-		return prevRange(s, r)
-	}
-	prevCond := w.OnCond
-	loopConds := map[ast.Expr]bool{}
-	ast.Inspect(fd.Body, func(n ast.Node) bool {
-		if f, ok := n.(*ast.ForStmt); ok && f.Cond != nil {
-			loopConds[ast.Unparen(f.Cond)] = true
+// emTypeSwitchOperand: the X of `switch x := X.(type)` / `switch X.(type)`.
+func emTypeSwitchOperand(sw *ast.TypeSwitchStmt) ast.Expr {
+	var x ast.Expr
+	switch a := sw.Assign.(type) {
+	case *ast.ExprStmt:
+		x = a.X
+	case *ast.AssignStmt:
+		if len(a.Rhs) == 1 {
+			x = a.Rhs[0]
 		}
-		return true
-	})
-	w.OnCond = func(s *emSt, cond ast.Expr, taken bool) (*emSt, bool) {
-		if loopConds[cond] && taken {
-			e.inLoop++
-		}
-		return prevCond(s, cond, taken)
 	}
-	w.Run(fd.Body, init)
+	if ta, ok := ast.Unparen(x).(*ast.TypeAssertExpr); ok && ta.Type == nil {
+		return ta.X
+	}
+	return nil
+}
+
+// kindOfType: the name of the constant the Kind() method of a node type returns ("" when it has none).
+func (e *emitter) kindOfType(t types.Type) string {
+	if t == nil {
+		return ""
+	}
+	ms := types.NewMethodSet(t)
+	for i := 0; i < ms.Len(); i++ {
+		fn, ok := ms.At(i).Obj().(*types.Func)
+		if !ok || fn.Name() != "Kind" {
+			continue
+		}
+		di, ok := e.decls[fn]
+		if !ok || len(di.fd.Body.List) != 1 {
+			return ""
+		}
+		r, ok := di.fd.Body.List[0].(*ast.ReturnStmt)
+		if !ok || len(r.Results) != 1 {
+			return ""
+		}
+		if k := ConstOf(di.info, r.Results[0]); k != nil {
+			return k.Name()
+		}
+	}
+	return ""
+}
+
+func emMentions(text, name string) bool {
+	isIdent := func(c byte) bool {
+		return c == '_' || c >= 'a' && c <= 'z' || c >= 'A' && c <= 'Z' || c >= '0' && c <= '9' || c >= 0x80
+	}
+	for i := 0; i+len(name) <= len(text); i++ {
+		if text[i:i+len(name)] == name && (i == 0 || !isIdent(text[i-1])) && (i+len(name) == len(text) || !isIdent(text[i+len(name)])) {
+			return true
+		}
+	}
+	return false
+}
+
+// nodeArg: the argument of a call that carries the node the callee compiles (the first parameter
+// that is not the compiler itself).
+func (e *emitter) nodeArg(fn *types.Func, call *ast.CallExpr) ast.Expr {
+	i := e.nodeParamIndex(fn)
+	if i < 0 || i >= len(call.Args) {
+		return nil
+	}
+	return call.Args[i]
+}
+
+func (e *emitter) nodeParamIndex(fn *types.Func) int {
+	sig, _ := fn.Type().(*types.Signature)
+	if sig == nil {
+		return -1
+	}
+	first := -1
+	for i := 0; i < sig.Params().Len(); i++ {
+		t := sig.Params().At(i).Type()
+		if n := recvNamed(t); n != nil && n.Obj().Name() == "Compiler" && n.Obj().Pkg() == fn.Pkg() {
+			continue
+		}
+		if first < 0 {
+			first = i
+		}
+		// the node: the first parameter of a node type, wherever it stands
+		if e.isNodeType(t) {
+			return i
+		}
+	}
+	return first
+}
+
+func (e *emitter) isNodeType(t types.Type) bool {
+	for _, nt := range e.nodeTs {
+		if types.Identical(t, nt) {
+			return true
+		}
+	}
+	if types.IsInterface(t) {
+		return false
+	}
+	for _, ni := range e.nodeIs {
+		if types.Implements(t, ni) {
+			return true
+		}
+	}
+	return false
+}
+
+// bindParams binds the receiver and the parameters of fd to the arguments of call: canonical
+// texts, tracked values, integer forms, function literals.
+func (e *emitter) bindParams(s *emSt, fd *ast.FuncDecl, call *ast.CallExpr) {
+	info := e.info
+	type b struct {
+		obj  types.Object
+		arg  ast.Expr
+		txt  string
+		alts []emVal
+		old  types.Object
+		iv   *lin
+		lit  *ast.FuncLit
+		inst ast.Expr
+	}
+	var bs []b
+	if fd.Recv != nil && len(fd.Recv.List) > 0 && len(fd.Recv.List[0].Names) > 0 {
+		if sel, ok := ast.Unparen(call.Fun).(*ast.SelectorExpr); ok {
+			bs = append(bs, b{obj: info.Defs[fd.Recv.List[0].Names[0]], txt: e.canon(s, info, sel.X)})
+		}
+	}
+	i := 0
+	for _, f := range fd.Type.Params.List {
+		_, variadic := f.Type.(*ast.Ellipsis)
+		for _, n := range f.Names {
+			if i < len(call.Args) && !variadic {
+				a := call.Args[i]
+				x := b{obj: info.Defs[n], arg: a, txt: e.canon(s, info, a)}
+				if ro := emObjOf(info, a); ro != nil {
+					if gi, _ := s.groupOf(ro); gi >= 0 {
+						x.old = ro
+					}
+					if lit, ok := s.funcs[ro]; ok {
+						x.lit = lit
+					}
+				}
+				if lit, ok := ast.Unparen(a).(*ast.FuncLit); ok {
+					x.lit = lit
+				}
+				if cc, ok := ast.Unparen(a).(*ast.CallExpr); ok {
+					if cf := CalleeOf(info, cc); cf != nil && e.ctors[cf] {
+						x.inst = cc
+					}
+				} else if cl := e.isInstrLit(info, a); cl != nil {
+					x.inst = cl
+				} else if ro := emObjOf(info, a); ro != nil {
+					if cc, ok := s.insts[ro]; ok {
+						x.inst = cc
+					}
+				}
+				x.alts = e.evalAlts(s, info, a, nil, 0)
+				if v, ok := e.intOf(s, info, a); ok {
+					x.iv = &v
+				}
+				bs = append(bs, x)
+			}
+			i++
+		}
+		if len(f.Names) == 0 {
+			i++
+		}
+	}
+	for _, x := range bs {
+		if x.obj == nil {
+			continue
+		}
+		s.env[x.obj] = x.txt
+		delete(s.ints, x.obj)
+		delete(s.funcs, x.obj)
+		delete(s.insts, x.obj)
+		if x.arg == nil {
+			continue
+		}
+		if x.iv != nil {
+			s.ints[x.obj] = *x.iv
+		}
+		if x.lit != nil {
+			s.funcs[x.obj] = x.lit
+		}
+		if x.inst != nil {
+			s.insts[x.obj] = x.inst
+		}
+		delete(s.conds, x.obj)
+		if e.isCondition(info, x.obj, x.arg) {
+			s.conds[x.obj] = x.arg
+		} else if ro := emObjOf(info, x.arg); ro != nil {
+			if c, ok := s.conds[ro]; ok {
+				s.conds[x.obj] = c
+			}
+		}
+		if x.old != nil {
+			s.aliasCol(x.obj, x.old)
+			continue
+		}
+		allKnown := len(x.alts) > 0
+		for _, a := range x.alts {
+			if !a.known() {
+				allKnown = false
+			}
+		}
+		if allKnown {
+			var rows [][]emVal
+			for _, a := range x.alts {
+				rows = append(rows, []emVal{a})
+			}
+			s.bindRows([]types.Object{x.obj}, rows)
+		} else {
+			s.unbind(x.obj)
+		}
+	}
+}
+
+// inlineCall analyses a call of a helper by walking the helper's body in the caller's state.
+func (e *emitter) inlineCall(s *emSt, call *ast.CallExpr, fn *types.Func, fd *ast.FuncDecl) {
+	// a helper may call itself (with other arguments: `f(NotEqual)` = `f(Equal)` + Not), a few levels deep
+	depthOfFn := 0
+	for _, g := range e.inlStack {
+		if g == fn {
+			depthOfFn++
+		}
+	}
+	if depthOfFn >= 3 {
+		e.problem(s, call.Pos(), "%s is recursive through helpers more than 3 levels deep: not supported", fn.Name())
+		return
+	}
+	if len(e.inlStack) > 8 {
+		e.problem(s, call.Pos(), "helpers nested deeper than 8 calls: not supported")
+		return
+	}
+	before := emClone(s)
+	e.bindParams(s, fd, call)
+	s.inst[fn]++
+	s.depth++
+	e.inlStack = append(e.inlStack, fn)
+	exits := e.walkBody(fd, fd.Body, s)
+	e.inlStack = e.inlStack[:len(e.inlStack)-1]
+	e.mergeExits(s, before, exits, call, fn.Name())
+}
+
+// inlineLit: the same for a function literal (a deferred closure, a local closure that is called).
+func (e *emitter) inlineLit(s *emSt, fd *ast.FuncDecl, lit *ast.FuncLit, call *ast.CallExpr) {
+	if len(e.inlStack) > 6 {
+		e.problem(s, call.Pos(), "helpers nested deeper than 6 calls: not supported")
+		return
+	}
+	before := emClone(s)
+	e.bindParams(s, &ast.FuncDecl{Type: lit.Type}, call)
+	s.depth++
+	e.inlStack = append(e.inlStack, nil)
+	exits := e.walkBody(fd, lit.Body, s)
+	e.inlStack = e.inlStack[:len(e.inlStack)-1]
+	e.mergeExits(s, before, exits, call, "the function literal")
+}
+
+// fork: the path in state s splits k ways at pos. Returns the way this run takes (the others are
+// scheduled as further runs); ok=false when this run asks for a way that does not exist here.
+func (e *emitter) fork(s *emSt, made map[string]int, pos token.Pos, k int) (key string, pick int, ok bool) {
+	key = fmt.Sprintf("%d#%d", pos, s.forkCnt[pos])
+	if w, has := e.want[key]; has {
+		return key, w, w < k
+	}
+	for j := 1; j < k; j++ {
+		w2 := map[string]int{}
+		for k2, v := range made {
+			w2[k2] = v
+		}
+		w2[key] = j
+		if wk := emWantKey(w2); !e.seenWant[wk] {
+			e.seenWant[wk] = true
+			e.pending = append(e.pending, w2)
+		}
+	}
+	return key, 0, true
+}
+
+// mergeExits continues the caller's path after an inlined body: *s becomes the join of the body's
+// exits. Exits that agree on everything the caller can observe (height, reachability, labels) are
+// one continuation; a body that ends in several observable ways at this call site is reported.
+func (e *emitter) mergeExits(s, before *emSt, exits []*emSt, call *ast.CallExpr, name string) {
+	pos := call.Pos()
+	if len(exits) == 0 {
+		// the helper never returns here
+		problems := s.problems
+		*s = *before
+		s.problems = problems
+		s.dead = true
+		return
+	}
+	sig := func(x *emSt) string {
+		var b []string
+		b = append(b, fmt.Sprint(x.reach), fmt.Sprint(x.world))
+		if x.reach {
+			b = append(b, x.h.String())
+		}
+		var ks []string
+		for k, v := range x.recorded {
+			var hs []string
+			for _, h := range v {
+				hs = append(hs, h.String())
+			}
+			ks = append(ks, "r:"+k+"="+strings.Join(hs, ","))
+		}
+		for k, v := range x.emitted {
+			ks = append(ks, "e:"+k+"="+v.String())
+		}
+		for k, v := range x.emitCnt {
+			ks = append(ks, fmt.Sprintf("c:%s=%d", k, v))
+		}
+		for k := range x.created {
+			ks = append(ks, "m:"+k)
+		}
+		for k, v := range x.alias {
+			ks = append(ks, "a:"+k+"="+v)
+		}
+		sort.Strings(ks)
+		// what the helper returns (an opcode for the caller to emit, ...)
+		var rs []string
+		for _, r := range x.ret {
+			var vs []string
+			for _, v := range r {
+				vs = append(vs, v.key())
+			}
+			rs = append(rs, strings.Join(vs, ","))
+		}
+		sort.Strings(rs)
+		ks = append(ks, "ret:"+strings.Join(uniqStrings(rs), ";"))
+		return strings.Join(append(b, ks...), "|")
+	}
+	groups := map[string][]*emSt{}
+	var order []string
+	for _, x := range exits {
+		k := sig(x)
+		if _, ok := groups[k]; !ok {
+			order = append(order, k)
+		}
+		groups[k] = append(groups[k], x)
+	}
+	// several observable ends: the caller's path forks; this run follows the way it is asked to
+	pick := 0
+	if len(order) > 1 {
+		made := emNonZero(before.picks)
+		for _, x := range exits {
+			for k, v := range x.picks {
+				if v != 0 {
+					made[k] = v
+				}
+			}
+		}
+		key, p, ok := e.fork(before, made, pos, len(order))
+		if !ok {
+			problems := s.problems
+			*s = *before
+			s.problems = problems
+			s.dead = true
+			return
+		}
+		pick = p
+		n := before.forkCnt[pos]
+		defer func() {
+			s.picks[key] = pick
+			s.forkCnt[pos] = n + 1
+		}()
+	}
+	first := groups[order[pick]]
+	m := emClone(first[0])
+	for _, x := range first[1:] {
+		for k, v := range x.picks {
+			m.picks[k] = v
+		}
+		m.ret = append(append([][]emVal(nil), m.ret...), x.ret...)
+		if x.stop() != m.stop() && len(m.stk) > 0 {
+			m.stk[len(m.stk)-1] = "?"
+		}
+		if (x.last == nil) != (m.last == nil) || (x.last != nil && !x.last.eq(*m.last)) {
+			m.last = nil
+		}
+		for k := range m.tails {
+			if !x.tails[k] {
+				delete(m.tails, k)
+			}
+		}
+		// what the ways disagree on is known only as far as it was known before the call
+		for k, v := range m.nuFact {
+			if w, ok := x.nuFact[k]; !ok || w != v {
+				delete(m.nuFact, k)
+				if b, ok := before.nuFact[k]; ok {
+					m.nuFact[k] = b
+				}
+			}
+		}
+		for k, v := range m.tags {
+			if w, ok := x.tags[k]; !ok || strings.Join(w, ",") != strings.Join(v, ",") {
+				delete(m.tags, k)
+				if b, ok := before.tags[k]; ok {
+					m.tags[k] = b
+				}
+			}
+		}
+		for k, v := range x.inst {
+			if v > m.inst[k] {
+				m.inst[k] = v
+			}
+		}
+	}
+	var probs []string
+	for _, x := range first {
+		for _, p := range x.problems {
+			dup := false
+			for _, q := range probs {
+				if p == q {
+					dup = true
+				}
+			}
+			if !dup {
+				probs = append(probs, p)
+			}
+		}
+	}
+	m.problems = probs
+	if m.ret != nil {
+		m.callRes[call] = m.ret
+	} else {
+		delete(m.callRes, call)
+	}
+	m.ret = nil
+	// what belongs to the callee's frame ends with it
+	m.env, m.groups, m.ints, m.funcs, m.insts, m.conds = before.env, before.groups, before.ints, before.funcs, before.insts, before.conds
+	m.depth, m.caseKey = before.depth, before.caseKey
+	*s = *m
 }
 
 func ruleEmitBalance(c *Ctx) []Obligation {
 	p := c.Pkg("homescript/compiler")
 	info := p.TypesInfo
-	e := &emitter{c: c, info: info, vm: emVMEffects(c), ctors: map[*types.Func]bool{}, fns: map[*types.Func]*ast.FuncDecl{}, summ: map[*types.Func]*emSumm{}}
+	e := &emitter{c: c, info: info, vm: emVMEffects(c), ctors: map[*types.Func]bool{}, fns: map[*types.Func]*ast.FuncDecl{},
+		divMemo: map[*types.Func]bool{}, lnames: map[types.Object]string{}, owner: map[types.Object]*ast.FuncDecl{}}
 	var obs []Obligation
 	// roles
 	opT := p.Types.Scope().Lookup("Opcode")
@@ -1395,7 +4645,9 @@ func ruleEmitBalance(c *Ctx) []Obligation {
 		fatalf("anchor unresolved: compiler.Opcode / compiler.Instruction")
 	}
 	e.opcodeT = opT.Type()
+	e.instrT = instrT.Type()
 	e.ctorOp = map[*types.Func]string{}
+	e.buildIndex()
 	iface, _ := instrT.Type().Underlying().(*types.Interface)
 	for _, fd := range AllFuncDecls(p) {
 		fn, _ := info.Defs[fd.Name].(*types.Func)
@@ -1426,28 +4678,110 @@ func ruleEmitBalance(c *Ctx) []Obligation {
 			})
 		}
 	}
-	// insert: *Compiler method (Instruction, Span) that appends to Instructions
-	for _, fd := range AllFuncDecls(p) {
-		if fd.Recv == nil || recvTypeName(fd.Recv.List[0].Type) != "Compiler" {
-			continue
+	// insert: the functions that take an instruction and append it to a list of instructions, directly
+	// (`append(list, instruction)`) or by handing it to another such function; e.inserts maps each to
+	// the position of its instruction parameter
+	e.inserts = map[*types.Func]int{}
+	instrParam := func(fd *ast.FuncDecl) (types.Object, int) {
+		k := 0
+		for _, f := range fd.Type.Params.List {
+			t := info.TypeOf(f.Type)
+			for _, n := range f.Names {
+				if t != nil && types.Identical(t, instrT.Type()) {
+					return info.Defs[n], k
+				}
+				k++
+			}
+			if len(f.Names) == 0 {
+				k++
+			}
 		}
-		fn := info.Defs[fd.Name].(*types.Func)
-		sig := fn.Type().(*types.Signature)
-		if sig.Params().Len() == 2 && types.Identical(sig.Params().At(0).Type(), instrT.Type()) {
-			e.insert = fn
+		return nil, -1
+	}
+	for changed := true; changed; {
+		changed = false
+		for _, fd := range AllFuncDecls(p) {
+			fn, _ := info.Defs[fd.Name].(*types.Func)
+			if fn == nil {
+				continue
+			}
+			if _, done := e.inserts[fn]; done {
+				continue
+			}
+			param, idx := instrParam(fd)
+			if param == nil {
+				continue
+			}
+			// only a plain forwarder counts as "the insert": the instruction is handed on exactly once, by a
+			// statement at the top level of the body (anything else is an ordinary emitter function,
+			// analysed inline with its instruction parameter bound to the caller's constructor call)
+			uses := 0
+			ast.Inspect(fd.Body, func(n ast.Node) bool {
+				if id, ok := n.(*ast.Ident); ok && info.Uses[id] == param {
+					uses++
+				}
+				return true
+			})
+			if uses != 1 {
+				continue
+			}
+			found := false
+			for _, top := range fd.Body.List {
+				switch top.(type) {
+				case *ast.ExprStmt, *ast.AssignStmt, *ast.ReturnStmt, *ast.DeclStmt:
+				default:
+					continue
+				}
+				ast.Inspect(top, func(n ast.Node) bool {
+					if _, isLit := n.(*ast.FuncLit); isLit {
+						return false
+					}
+					call, ok := n.(*ast.CallExpr)
+					if !ok || found {
+						return !found
+					}
+					isParam := func(x ast.Expr) bool {
+						id, ok := ast.Unparen(x).(*ast.Ident)
+						return ok && info.Uses[id] == param
+					}
+					if id, ok := ast.Unparen(call.Fun).(*ast.Ident); ok && id.Name == "append" && len(call.Args) >= 2 {
+						if _, isB := info.Uses[id].(*types.Builtin); isB {
+							if ct := info.TypeOf(call); ct != nil {
+								if sl, ok := ct.Underlying().(*types.Slice); ok && types.Identical(sl.Elem(), instrT.Type()) {
+									for _, a := range call.Args[1:] {
+										if isParam(a) {
+											found = true
+										}
+									}
+								}
+							}
+						}
+					}
+					if g := CalleeOf(info, call); g != nil {
+						if gi, ok := e.inserts[g]; ok && gi < len(call.Args) && isParam(call.Args[gi]) {
+							found = true
+						}
+					}
+					return !found
+				})
+			}
+			if found {
+				e.inserts[fn] = idx
+				changed = true
+			}
 		}
 	}
-	if e.insert == nil || len(e.ctors) == 0 {
+	if len(e.inserts) == 0 || len(e.ctors) == 0 {
 		fatalf("anchor unresolved: the compiler's insert method / instruction constructors")
 	}
-	// emitter functions: *Compiler methods that (transitively) call insert
+	// emitter functions: functions of the package (methods of the compiler or not) that (transitively) call insert
 	calls := map[*types.Func][]*types.Func{}
 	decl := map[*types.Func]*ast.FuncDecl{}
 	for _, fd := range AllFuncDecls(p) {
-		if fd.Recv == nil || recvTypeName(fd.Recv.List[0].Type) != "Compiler" {
+		fn, _ := info.Defs[fd.Name].(*types.Func)
+		if fn == nil {
 			continue
 		}
-		fn := info.Defs[fd.Name].(*types.Func)
 		decl[fn] = fd
 		ast.Inspect(fd.Body, func(n ast.Node) bool {
 			if call, ok := n.(*ast.CallExpr); ok {
@@ -1458,7 +4792,10 @@ func ruleEmitBalance(c *Ctx) []Obligation {
 			return true
 		})
 	}
-	emits := map[*types.Func]bool{e.insert: true}
+	emits := map[*types.Func]bool{}
+	for fn := range e.inserts {
+		emits[fn] = true
+	}
 	for changed := true; changed; {
 		changed = false
 		for fn, cs := range calls {
@@ -1475,8 +4812,9 @@ func ruleEmitBalance(c *Ctx) []Obligation {
 		}
 	}
 	for fn := range emits {
-		if fn != e.insert && decl[fn] != nil {
+		if _, isInsert := e.inserts[fn]; !isInsert && decl[fn] != nil {
 			e.fns[fn] = decl[fn]
+			e.indexLocals(decl[fn])
 		}
 	}
 	e.classify(c, calls)
@@ -1494,9 +4832,9 @@ func ruleEmitBalance(c *Ctx) []Obligation {
 	obs = append(obs, Obligation{Key: "VM opcode stack-effect table", Status: Info, Detail: strings.Join(tbl, " ")})
 	// node kinds typed null by construction: analyzer builds them with ResultType: NewNullType(...)
 	nullKinds := emNullTypedNodes(c)
-	// 1. helpers with a single constant effect: iterate to a fixpoint over non-recursive helpers
-	// leaf helpers (role emRHelper: emitter functions from which no recursive emitter function is
-	// reachable), summarised callees first
+	// 1. leaf helpers (role emRHelper: emitter functions from which no recursive emitter function is
+	// reachable): one stack effect on all paths. Their callers analyse them inline, with the actual
+	// arguments, so this obligation is about the helper taken alone (parameters symbolic).
 	var helpers []*types.Func
 	for fn, r := range e.role {
 		if r == emRHelper {
@@ -1504,77 +4842,41 @@ func ruleEmitBalance(c *Ctx) []Obligation {
 		}
 	}
 	sort.Slice(helpers, func(i, j int) bool { return helpers[i].Name() < helpers[j].Name() })
-	doneHelper := map[*types.Func]bool{}
-	for progress := true; progress; {
-		progress = false
-		for _, fn := range helpers {
-			if doneHelper[fn] {
+	for _, fn := range helpers {
+		fd := e.fns[fn]
+		name := fn.Name()
+		exits, overflow := e.walkFn(fd)
+		o := Obligation{Key: "compiler." + name + "|one stack effect on all paths", Pos: c.Pos(fd.Pos()), Nontrivial: true}
+		var effs []string
+		var problems []string
+		for _, x := range exits {
+			for _, p := range x.problems {
+				if !strings.Contains(p, emCallbackMark) {
+					problems = append(problems, p)
+				}
+			}
+			if !x.reach {
 				continue
 			}
-			ready := true
-			for _, g := range calls[fn] {
-				if e.role[g] == emRHelper && g != fn && !doneHelper[g] {
-					ready = false
-				}
-			}
-			if !ready {
-				continue
-			}
-			doneHelper[fn] = true
-			progress = true
-			fd := e.fns[fn]
-			name := fn.Name()
-			exits, overflow := e.walkFn(fd)
-			o := Obligation{Key: "compiler." + name + "|one stack effect on all paths", Pos: c.Pos(fd.Pos()), Nontrivial: true}
-			var effs []string
-			var problems []string
-			var first *lin
-			var lasts []string
-			var last *lin
-			for _, x := range exits {
-				problems = append(problems, x.problems...)
-				if !x.reach {
-					continue
-				}
-				h := x.h
-				if first == nil {
-					first = &h
-				}
-				effs = append(effs, h.String())
-				if x.last != nil {
-					l := *x.last
-					last = &l
-					lasts = append(lasts, l.String())
-				} else {
-					lasts = append(lasts, "-")
-				}
-			}
-			effs = uniqStrings(effs)
-			if len(uniqStrings(lasts)) != 1 {
-				last = nil
-			}
-			switch {
-			case overflow:
-				o.Status, o.Detail = Undecided, "path overflow"
-			case len(problems) > 0:
-				o.Status, o.Detail = Violated, strings.Join(uniqStrings(problems), "; ")
-			case len(effs) != 1:
-				o.Status, o.Detail = Violated, "paths have different stack effects: "+strings.Join(effs, " vs ")
-			default:
-				o.Status, o.Detail = Discharged, "effect "+effs[0]
-				sm := &emSumm{eff: *first, last: last}
-				for _, f := range fd.Type.Params.List {
-					for _, n := range f.Names {
-						sm.params = append(sm.params, n.Name)
-					}
-					if len(f.Names) == 0 {
-						sm.params = append(sm.params, "")
-					}
-				}
-				e.summ[fn] = sm
-			}
-			obs = append(obs, o)
+			effs = append(effs, x.h.String())
 		}
+		effs = uniqStrings(effs)
+		switch {
+		case overflow:
+			o.Status, o.Detail = Undecided, "path overflow"
+		case len(problems) > 0:
+			o.Status, o.Detail = Violated, strings.Join(uniqStrings(problems), "; ")
+		case len(effs) > 1:
+			// not one effect: the callers, which analyse the helper inline with their arguments, decide
+			// whether each way it can end balances there
+			o.Status, o.Detail = Discharged, "effects "+strings.Join(effs, " | ")+" (decided at the call sites)"
+		case len(effs) == 0:
+			// every path ends in a jump / return instruction: the effect shows where the helper is used
+			o.Status, o.Detail = Discharged, "no path falls through (each ends in a jump)"
+		default:
+			o.Status, o.Detail = Discharged, "effect "+effs[0]
+		}
+		obs = append(obs, o)
 	}
 	// 2. every other emitter function, grouped by outermost case
 	var fnames []string
@@ -1584,18 +4886,21 @@ func ruleEmitBalance(c *Ctx) []Obligation {
 		byName[fn.Name()] = fn
 	}
 	sort.Strings(fnames)
-	for _, name := range fnames {
+	// A function typed like "compiles ONE node" (expression-like, block-like, statement-like) is used by
+	// its callers through that convention and checked against it here. When it is internally consistent
+	// but does not net what the convention says, it is not such a function but a piece of a construct
+	// that happens to take the node (the arguments of a call, the call instruction without them): it is
+	// then analysed inline at its call sites like any other piece, and the callers decide.
+	e.demoted = map[*types.Func]bool{}
+	analyse := func(name string) (out []Obligation, netOnly bool) {
 		fn := byName[name]
-		switch e.role[fn] {
-		case emRHelper, emRDriver:
-			continue
-		}
+		netBad, internalBad := false, false
 		role := e.role[fn]
 		fd := e.fns[fn]
 		exits, overflow := e.walkFn(fd)
 		if overflow {
-			obs = append(obs, Obligation{Key: "compiler." + name, Pos: c.Pos(fd.Pos()), Status: Undecided, Detail: "path enumeration overflow"})
-			continue
+			out = append(out, Obligation{Key: "compiler." + name, Pos: c.Pos(fd.Pos()), Status: Undecided, Detail: "path enumeration overflow"})
+			return out, false
 		}
 		groups := map[string][]*emSt{}
 		for _, x := range exits {
@@ -1610,6 +4915,20 @@ func ruleEmitBalance(c *Ctx) []Obligation {
 			gkeys = append(gkeys, k)
 		}
 		sort.Strings(gkeys)
+		// an expression-like function over a node kind the analyzer types as null nets nothing
+		nullTyped := false
+		if role == emRExprLike {
+			if i := e.nodeParamIndex(fn); i >= 0 {
+				if n := recvNamed(fn.Type().(*types.Signature).Params().At(i).Type()); n != nil {
+					kind := strings.TrimSuffix(strings.TrimPrefix(n.Obj().Name(), "Analyzed"), "Expression") + "ExpressionKind"
+					for _, nk := range nullKinds {
+						if nk == kind {
+							nullTyped = true
+						}
+					}
+				}
+			}
+		}
 		for _, gk := range gkeys {
 			xs := groups[gk]
 			key := "compiler." + name
@@ -1620,14 +4939,23 @@ func ruleEmitBalance(c *Ctx) []Obligation {
 			var problems, effs []string
 			for _, x := range xs {
 				problems = append(problems, x.problems...)
+				for _, p := range x.problems {
+					if strings.Contains(p, emCallbackMark) {
+						netBad = true
+					} else {
+						internalBad = true
+					}
+				}
 				// labels jumped to but never emitted (created here)
 				for lk, rec := range x.recorded {
 					if x.created[lk] && len(rec) > 0 {
+						internalBad = true
 						problems = append(problems, fmt.Sprintf("label %s is jumped to but not emitted on this path", lk))
 					}
 				}
 				for lk, n := range x.emitCnt {
 					if n > 1 {
+						internalBad = true
 						problems = append(problems, fmt.Sprintf("label %s is emitted %d times on one path", lk, n))
 					}
 				}
@@ -1655,13 +4983,18 @@ func ruleEmitBalance(c *Ctx) []Obligation {
 						continue
 					}
 				case role == emRExprLike || role == emRBlockLike:
-					valueLike = true
+					valueLike = !nullTyped
 				case role == emRStmtLike:
+				case role == emRFragment:
+					// a piece of a construct: what it nets is decided where it is used (it is analysed inline
+					// at its call sites); here only its internal consistency (labels, loops)
+					continue
 				case role == emRFrame:
 					// frame protocol: consumes its parameters, leaves the body's result; anything that
 					// scales with another list is residue per element
 					for k, n := range x.h.s {
 						if strings.HasPrefix(k, "n(") {
+							internalBad = true
 							problems = append(problems, fmt.Sprintf("the prologue/epilogue leaves %+d value(s) per element of %s on the operand stack", n, strings.TrimSuffix(strings.TrimPrefix(k, "n("), ")")))
 						}
 					}
@@ -1670,6 +5003,7 @@ func ruleEmitBalance(c *Ctx) []Obligation {
 					continue
 				}
 				bad := func(msg string) {
+					netBad = true
 					problems = append(problems, fmt.Sprintf("nets %s on the operand stack: %s", x.h, msg))
 				}
 				if len(h1.s) != 0 || len(h0.s) != 0 {
@@ -1703,13 +5037,90 @@ func ruleEmitBalance(c *Ctx) []Obligation {
 				}
 			}
 			problems = uniqStrings(problems)
+			if role == emRFragment {
+				var keep []string
+				for _, p := range problems {
+					if !strings.Contains(p, emCallbackMark) {
+						keep = append(keep, p)
+					}
+				}
+				problems = keep
+			}
 			if len(problems) > 0 {
 				o.Status, o.Detail = Violated, strings.Join(problems, "; ")
 			} else {
 				o.Status, o.Detail = Discharged, "effects "+strings.Join(uniqStrings(effs), " | ")
+				if e.demoted[fn] {
+					o.Detail += " (not the value of its node as a whole: a piece of a construct, analysed inline at its call sites)"
+				}
 			}
-			obs = append(obs, o)
+			out = append(out, o)
 		}
+		return out, netBad && !internalBad
+	}
+	demotable := func(fn *types.Func) bool {
+		if fn == e.exprDispatch || fn == e.stmtDispatch || e.byDriver[fn] {
+			return false
+		}
+		switch e.role[fn] {
+		case emRExprLike, emRBlockLike, emRStmtLike:
+			return true
+		}
+		return false
+	}
+	runAll := func() (results map[string][]Obligation, netOnly map[*types.Func]bool, violated map[string]bool) {
+		results, netOnly, violated = map[string][]Obligation{}, map[*types.Func]bool{}, map[string]bool{}
+		for _, name := range fnames {
+			fn := byName[name]
+			switch e.role[fn] {
+			case emRHelper, emRDriver:
+				continue
+			}
+			out, no := analyse(name)
+			results[name] = out
+			netOnly[fn] = no
+			for _, o := range out {
+				if o.Status == Violated || o.Status == Undecided {
+					violated[o.Key] = true
+				}
+			}
+		}
+		return
+	}
+	results, netOnly, violated := runAll()
+	tried := map[*types.Func]bool{}
+	for iter := 0; iter < 12; iter++ {
+		var cand *types.Func
+		for _, name := range fnames {
+			if fn := byName[name]; netOnly[fn] && demotable(fn) && !tried[fn] {
+				cand = fn
+				break
+			}
+		}
+		if cand == nil {
+			break
+		}
+		tried[cand] = true
+		oldRole := e.role[cand]
+		e.role[cand] = emRFragment
+		e.demoted[cand] = true
+		r2, n2, v2 := runAll()
+		worse := false
+		for k := range v2 {
+			if !violated[k] {
+				worse = true
+			}
+		}
+		if worse {
+			// its callers do not balance with it either: it is what its type says, and broken
+			e.role[cand] = oldRole
+			delete(e.demoted, cand)
+			continue
+		}
+		results, netOnly, violated = r2, n2, v2
+	}
+	for _, name := range fnames {
+		obs = append(obs, results[name]...)
 	}
 	return obs
 }
@@ -1792,67 +5203,20 @@ func emNullTypedNodes(c *Ctx) []string {
 	return uniqStrings(out)
 }
 
-
 // ---- roles of the emitter functions (resolved through parameter types and the call graph, never by name)
 
 type emRole int
 
 const (
 	emRNone      emRole = iota
-	emRHelper           // leaf helper: no recursive emitter function is reachable from it; summarised
-	emRExprLike         // first parameter is an analyzed expression: nets the value of that expression
-	emRBlockLike        // first parameter is the analyzed block: nets the value of its result expression
-	emRStmtLike         // anything else inside the recursion: nets nothing
-	emRFrame            // first parameter is a function definition: emits into that function's own list
+	emRHelper           // leaf helper: no recursive emitter function is reachable from it; analysed inline at its call sites
+	emRExprLike         // its node parameter is an analyzed expression: nets the value of that expression
+	emRBlockLike        // its node parameter is the analyzed block: nets the value of its result expression
+	emRStmtLike         // compiles a statement (or is called by a driver): nets nothing
+	emRFrame            // its node parameter is a function definition: emits into that function's own list
 	emRDriver           // entry points above the recursion that call frame functions: emit into other lists
+	emRFragment         // inside the recursion, but its first parameter is not ONE node (a list of nodes, two operands, the expression interface handed on by the dispatcher): a piece of a construct, analysed inline at its call sites
 )
-
-type emSumm struct {
-	eff    lin
-	last   *lin     // the integer pushed last (argument count), when the same on every path
-	params []string // parameter names, to substitute the actual arguments
-}
-
-// emSubst replaces parameter names by argument texts inside the symbols of a linear form.
-func emSubst(l lin, sub map[string]string) lin {
-	out := lin{c: l.c, s: map[string]int{}}
-	for k, v := range l.s {
-		out.s[emSubstSym(k, sub)] += v
-	}
-	return out
-}
-
-func emSubstSym(sym string, sub map[string]string) string {
-	if len(sub) == 0 {
-		return sym
-	}
-	var b strings.Builder
-	i := 0
-	isIdent := func(c byte) bool {
-		return c == '_' || c >= 'a' && c <= 'z' || c >= 'A' && c <= 'Z' || c >= '0' && c <= '9'
-	}
-	for i < len(sym) {
-		c := sym[i]
-		if isIdent(c) && !(c >= '0' && c <= '9') {
-			j := i
-			for j < len(sym) && isIdent(sym[j]) {
-				j++
-			}
-			word := sym[i:j]
-			// a selector's field name (preceded by '.') and a function name (followed by '(') are not variables
-			if rep, ok := sub[word]; ok && (i == 0 || sym[i-1] != '.') && !(j < len(sym) && sym[j] == '(') {
-				b.WriteString(rep)
-			} else {
-				b.WriteString(word)
-			}
-			i = j
-			continue
-		}
-		b.WriteByte(c)
-		i++
-	}
-	return b.String()
-}
 
 // isNameMaker: a non-emitting method of the compiler that maps a string to a (mangled) string —
 // label / variable / function names are created by such calls.
@@ -1861,7 +5225,10 @@ func (e *emitter) isNameMaker(fn *types.Func) bool {
 	if sig == nil || sig.Recv() == nil || sig.Results().Len() != 1 {
 		return false
 	}
-	if _, emits := e.fns[fn]; emits || fn == e.insert {
+	if _, emits := e.fns[fn]; emits {
+		return false
+	}
+	if _, isInsert := e.inserts[fn]; isInsert {
 		return false
 	}
 	if recvNamed(sig.Recv().Type()) == nil || recvNamed(sig.Recv().Type()).Obj().Name() != "Compiler" {
@@ -1869,6 +5236,87 @@ func (e *emitter) isNameMaker(fn *types.Func) bool {
 	}
 	b, ok := sig.Results().At(0).Type().Underlying().(*types.Basic)
 	return ok && b.Kind() == types.String
+}
+
+// kindSwitchSize: the number of constants named by the clauses of the largest switch over
+// <first node parameter>.Kind() in the body: the dispatcher over an interface is the function that
+// has such a switch.
+func (e *emitter) kindSwitchSize(fn *types.Func) int {
+	fd := e.fns[fn]
+	i := e.nodeParamIndex(fn)
+	if fd == nil || i < 0 {
+		return 0
+	}
+	var param types.Object
+	k := 0
+	for _, f := range fd.Type.Params.List {
+		for _, n := range f.Names {
+			if k == i {
+				param = e.info.Defs[n]
+			}
+			k++
+		}
+		if len(f.Names) == 0 {
+			k++
+		}
+	}
+	if param == nil {
+		return 0
+	}
+	best := 0
+	ast.Inspect(fd.Body, func(n ast.Node) bool {
+		if ts, ok := n.(*ast.TypeSwitchStmt); ok {
+			if id, ok := ast.Unparen(emTypeSwitchOperand(ts)).(*ast.Ident); ok && e.info.Uses[id] == param {
+				cnt := 0
+				for _, cl := range ts.Body.List {
+					cnt += len(cl.(*ast.CaseClause).List)
+				}
+				if cnt > best {
+					best = cnt
+				}
+			}
+			return true
+		}
+		sw, ok := n.(*ast.SwitchStmt)
+		if !ok || sw.Tag == nil {
+			return true
+		}
+		tag := ast.Unparen(sw.Tag)
+		if id, ok := tag.(*ast.Ident); ok {
+			// a local holding the kind: its defining expression
+			obj := e.info.Uses[id]
+			ast.Inspect(fd.Body, func(m ast.Node) bool {
+				if as, ok := m.(*ast.AssignStmt); ok && len(as.Lhs) == len(as.Rhs) {
+					for i, l := range as.Lhs {
+						if lid, ok := l.(*ast.Ident); ok && e.info.Defs[lid] == obj && obj != nil {
+							tag = ast.Unparen(as.Rhs[i])
+						}
+					}
+				}
+				return true
+			})
+		}
+		call, ok := tag.(*ast.CallExpr)
+		if !ok {
+			return true
+		}
+		sel, ok := ast.Unparen(call.Fun).(*ast.SelectorExpr)
+		if !ok {
+			return true
+		}
+		if id, ok := ast.Unparen(sel.X).(*ast.Ident); !ok || e.info.Uses[id] != param {
+			return true
+		}
+		cnt := 0
+		for _, cl := range sw.Body.List {
+			cnt += len(cl.(*ast.CaseClause).List)
+		}
+		if cnt > best {
+			best = cnt
+		}
+		return true
+	})
+	return best
 }
 
 func (e *emitter) classify(c *Ctx, calls map[*types.Func][]*types.Func) {
@@ -1883,9 +5331,12 @@ func (e *emitter) classify(c *Ctx, calls map[*types.Func][]*types.Func) {
 	}
 	exprT, stmtT, blockT, fnDefT := look("AnalyzedExpression"), look("AnalyzedStatement"), look("AnalyzedBlock"), look("AnalyzedFunctionDefinition")
 	exprI, _ := exprT.Underlying().(*types.Interface)
-	if exprI == nil {
-		fatalf("anchor unresolved: analyzer/ast.AnalyzedExpression is not an interface")
+	stmtI, _ := stmtT.Underlying().(*types.Interface)
+	if exprI == nil || stmtI == nil {
+		fatalf("anchor unresolved: analyzer/ast.AnalyzedExpression / AnalyzedStatement is not an interface")
 	}
+	e.nodeTs = []types.Type{exprT, stmtT, blockT, fnDefT}
+	e.nodeIs = []*types.Interface{exprI, stmtI}
 	// reachability inside the emitter set
 	reach := map[*types.Func]map[*types.Func]bool{}
 	var dfs func(root, fn *types.Func)
@@ -1914,21 +5365,62 @@ func (e *emitter) classify(c *Ctx, calls map[*types.Func][]*types.Func) {
 		}
 	}
 	p0 := func(fn *types.Func) types.Type {
-		sig := fn.Type().(*types.Signature)
-		if sig.Params().Len() == 0 {
+		i := e.nodeParamIndex(fn)
+		if i < 0 {
 			return nil
 		}
-		return sig.Params().At(0).Type()
+		return fn.Type().(*types.Signature).Params().At(i).Type()
 	}
+	var order []*types.Func
 	for fn := range e.fns {
+		order = append(order, fn)
+	}
+	sort.Slice(order, func(i, j int) bool { return order[i].Pos() < order[j].Pos() })
+	// frames: functions over a function definition that start a new instruction list. A function over
+	// a function definition that is only called by such functions is a piece of the frame (its prologue,
+	// its epilogue): it emits into the same list and is analysed inline like any other piece.
+	cand := map[*types.Func]bool{}
+	for _, fn := range order {
 		if t := p0(fn); t != nil && types.Identical(t, fnDefT) {
+			cand[fn] = true
+		}
+	}
+	for changed := true; changed; {
+		changed = false
+		for _, fn := range order {
+			if !cand[fn] {
+				continue
+			}
+			callers, fromFrame := 0, 0
+			for g, cs := range calls {
+				if g == fn {
+					continue
+				}
+				for _, c := range cs {
+					if c == fn {
+						callers++
+						if cand[g] {
+							fromFrame++
+						}
+						break
+					}
+				}
+			}
+			if callers > 0 && callers == fromFrame {
+				delete(cand, fn)
+				changed = true
+			}
+		}
+	}
+	for _, fn := range order {
+		if cand[fn] {
 			e.role[fn] = emRFrame
 		}
 	}
 	// drivers: not reachable from the recursion, calling a frame function or another driver
 	for changed := true; changed; {
 		changed = false
-		for fn := range e.fns {
+		for _, fn := range order {
 			if e.role[fn] != emRNone || fromCycle[fn] || inCycle(fn) {
 				continue
 			}
@@ -1941,7 +5433,31 @@ func (e *emitter) classify(c *Ctx, calls map[*types.Func][]*types.Func) {
 			}
 		}
 	}
-	for fn := range e.fns {
+	// the dispatchers: the functions over the expression / statement interface with the largest switch
+	// over the kind of their node (other functions that take the interface — an arm of the dispatcher
+	// extracted with the node still untyped — are pieces, see emRFragment)
+	bestE, bestS := 0, 0
+	for _, fn := range order {
+		if e.role[fn] != emRNone {
+			continue
+		}
+		t := p0(fn)
+		if t == nil {
+			continue
+		}
+		if n := e.kindSwitchSize(fn); n > 0 {
+			if types.Identical(t, exprT) && n > bestE {
+				e.exprDispatch, bestE = fn, n
+			}
+			if types.Identical(t, stmtT) && n > bestS {
+				e.stmtDispatch, bestS = fn, n
+			}
+		}
+	}
+	if e.exprDispatch == nil || e.stmtDispatch == nil {
+		fatalf("anchor unresolved: the compiler's expression / statement dispatch functions (methods taking ast.AnalyzedExpression / ast.AnalyzedStatement and switching over its kind)")
+	}
+	for _, fn := range order {
 		if e.role[fn] != emRNone {
 			continue
 		}
@@ -1953,7 +5469,7 @@ func (e *emitter) classify(c *Ctx, calls map[*types.Func][]*types.Func) {
 		}
 		t := p0(fn)
 		// drivers are not analysed, so what they call directly must be closed by its own
-		// obligation (balanced by role), not merely summarised
+		// obligation (balanced by role), not merely analysed inline
 		calledByDriver := false
 		for d, r := range e.role {
 			if r == emRDriver {
@@ -1964,28 +5480,29 @@ func (e *emitter) classify(c *Ctx, calls map[*types.Func][]*types.Func) {
 				}
 			}
 		}
+		if e.byDriver == nil {
+			e.byDriver = map[*types.Func]bool{}
+		}
+		e.byDriver[fn] = calledByDriver
+		concrete := t != nil && !types.IsInterface(t)
 		switch {
+		case fn == e.exprDispatch:
+			e.role[fn] = emRExprLike
+		case fn == e.stmtDispatch:
+			e.role[fn] = emRStmtLike
 		case !reachesCycle && !inCycle(fn) && !calledByDriver:
 			e.role[fn] = emRHelper
 		case t != nil && types.Identical(t, blockT):
 			e.role[fn] = emRBlockLike
-		case t != nil && (types.Identical(t, exprT) || (!types.IsInterface(t) && types.Implements(t, exprI))):
+		case concrete && types.Implements(t, exprI):
 			e.role[fn] = emRExprLike
-			if types.Identical(t, exprT) {
-				e.exprDispatch = fn
-			}
-		default:
+		case concrete && types.Implements(t, stmtI), calledByDriver:
 			e.role[fn] = emRStmtLike
-			if t != nil && types.Identical(t, stmtT) {
-				e.stmtDispatch = fn
-			}
+		default:
+			e.role[fn] = emRFragment
 		}
 	}
-	if e.exprDispatch == nil || e.stmtDispatch == nil {
-		fatalf("anchor unresolved: the compiler's expression / statement dispatch functions (methods taking ast.AnalyzedExpression / ast.AnalyzedStatement)")
-	}
 }
-
 
 // emVMDispatch resolves the VM's instruction dispatcher by role: the method of runtime.Core
 // whose body holds the switch with the most clauses over compiler.Opcode constants.
